@@ -98,6 +98,10 @@ Proof.
 Qed.
 
 (* ------------------------------------------------------------------ the relation *)
+Ltac mp_fields :=
+  cbn [mps_boundary mps_pl mps_state mps_mpos mps_bpieces mps_cand mps_cr mps_fault mp_set_pl mp_set_state mp_set_mpos
+       mp_set_bpieces mp_set_cr mp_set_fault mp_sflag mp_shd mp_to_boundary ma_b ma_pl ma_m ma_ok] in *.
+
 Definition mp_nocr_end (r : bytes) : Prop := r = [] \/ last r 0%N <> CR.
 
 Record mp_base (s : mp_state) (A : mp_ast) : Prop := mk_mp_base {
@@ -135,6 +139,7 @@ Inductive mp_rm (data : bytes) (s : mp_state) (pos sp drp : nat) (A : mp_ast) : 
     skipn (mps_cand s) (concat (mps_bpieces s) ++ mp_slc data sp pos) = mp_matched (mps_boundary s) k ->
     held = (if mps_cr s then [CR] else []) ++ eol -> mp_eolshape (mps_cr s) d eol ->
     ma_pl A = mp_hd (mps_pl s) d false ->
+    (eol = [] -> mp_dupb (mps_pl s) = false) ->
     sp <= pos -> pos <= length data ->
     (mps_bpieces s = [] -> mps_cand s + sp = drp /\ sp <= drp /\ drp <= pos) ->
     (forall (p1 : bytes) (r : list bytes), mps_bpieces s = p1 :: r -> mps_cand s <= length p1 /\ sp = 0 /\ drp = 0) ->
@@ -176,7 +181,7 @@ Proof. intros H. right. rewrite last_last. exact H. Qed.
 Lemma base_shd s A d l pl' m' ok' :
   mp_base s A -> mp_base (mp_shd s d l) (mk_mp_ast (ma_b A) pl' m' ok').
 Proof.
-  intros [H1 H2 H3 H4]. split; cbn; try assumption. apply mp_plwf_hd. exact H3.
+  intros [H1 H2 H3 H4]. split; mp_fields; try assumption. apply mp_plwf_hd. exact H3.
 Qed.
 
 Lemma rm_data_inv data s pos sp drp A :
@@ -282,8 +287,8 @@ Proof.
         assert (nth_error data pos = None) by (apply nth_error_None; lia). congruence. }
       subst crp. rewrite app_nil_r in Hslc.
       split.
-      * destruct HB as [H1 H2 H3 H4]. split; cbn; try assumption. apply mp_plwf_hd. exact H3.
-      * apply RmData with (crp := false) (reg := []); cbn; try assumption; try lia.
+      * destruct HB as [H1 H2 H3 H4]. split; mp_fields; try assumption. apply mp_plwf_hd. exact H3.
+      * apply RmData with (crp := false) (reg := []); mp_fields; try assumption; try lia.
         -- rewrite Hslc. exact Hpl.
         -- right. repeat split; try assumption; try reflexivity; [left; reflexivity|discriminate].
   - destruct (nth_error data pos) as [c|] eqn:Ec; unfold mp_rd; rewrite Ec; [|exact I].
@@ -307,8 +312,8 @@ Proof.
         replace (skipn (pos + 1) data) with (@nil N) by (symmetry; apply skipn_all2; lia).
         cbn [fold_left].
         split.
-        -- destruct HB as [H1 H2 H3 H4]. split; cbn; try assumption; try congruence. apply mp_plwf_hd. exact H3.
-        -- apply RmData with (crp := true) (reg := []); cbn; try assumption; try lia.
+        -- destruct HB as [H1 H2 H3 H4]. split; mp_fields; try assumption; try congruence. apply mp_plwf_hd. exact H3.
+        -- apply RmData with (crp := true) (reg := []); mp_fields; try assumption; try lia.
            ++ rewrite Hpl1, <- Hslc. reflexivity.
            ++ left. tauto.
       * apply Nat.eqb_neq in El.
@@ -323,10 +328,10 @@ Proof.
            rewrite (astep_unfold_data (mp_astep A CR) LF true Hm1).
            destruct (astep_data_lf (ma_b (mp_astep A CR)) (ma_pl (mp_astep A CR)) (ma_ok (mp_astep A CR)) true) as (Hb2 & Hm2 & Hpl2 & _).
            split.
-           ++ destruct HB as [H1 H2 H3 H4]. split; cbn; try assumption; try congruence.
+           ++ destruct HB as [H1 H2 H3 H4]. split; mp_fields; try assumption; try congruence.
            ++ apply RmBnd with (held := [CR; LF]) (k := 2) (d := reg ++ (if crp then [CR] else [])) (eol := [CR; LF]);
                 cbn [mp_to_boundary mp_sflag mp_set_pl mps_state mps_mpos mps_bpieces mps_cand mps_cr mps_boundary mps_pl];
-                try assumption; try reflexivity; try lia.
+                try assumption; try reflexivity; try lia; try (intros HH; discriminate HH).
               ** destruct HB as [_ _ _ (b & Hb & _)]. rewrite Hb. cbn. lia.
               ** rewrite Hbp. cbn [concat app]. rewrite (slc_app data sp pos (pos + 2)) by lia.
                  rewrite (slc_cons_nth data pos (pos + 2) CR Ec) by lia.
@@ -345,7 +350,7 @@ Proof.
            assert (HB1 : mp_base (mp_set_cr s false) (mp_astep A CR))
              by (destruct HB as [H1 H2 H3 H4]; split; cbn; try assumption; congruence).
            assert (HR1 : mp_rm data (mp_set_cr s false) (pos + 1) sp drp (mp_astep A CR)).
-           { apply RmData with (crp := true) (reg := reg ++ (if crp then [CR] else [])); cbn; try assumption; try lia.
+           { apply RmData with (crp := true) (reg := reg ++ (if crp then [CR] else [])); mp_fields; try assumption; try lia.
              right. split; [reflexivity|]. split; [|split; [discriminate|]].
              + rewrite (slc_snoc data sp pos CR) by (try lia; exact Ec). rewrite Hslc. reflexivity.
              + intros _. exists c2. split; [exact Ec2|apply neqb_neq; exact E2]. }
@@ -360,13 +365,13 @@ Proof.
         rewrite (astep_unfold_data A LF crp Hm).
         destruct (astep_data_lf (ma_b A) (ma_pl A) (ma_ok A) crp) as (Hb2 & Hm2 & Hpl2 & _).
         split.
-        -- destruct HB as [H1 H2 H3 H4]. split; cbn; try assumption; try congruence.
+        -- destruct HB as [H1 H2 H3 H4]. split; mp_fields; try assumption; try congruence.
         -- destruct Hfl as [(Hcr & Hcrp & Hps & Hreg)|(Hcr & Hslc & Hnc & Hnx)].
            ++ (* the CR was set aside by the previous call *)
               subst crp reg sp.
               apply RmBnd with (held := [CR; LF]) (k := 2) (d := []) (eol := [LF]);
                 cbn [mp_to_boundary mp_sflag mp_set_pl mps_state mps_mpos mps_bpieces mps_cand mps_cr mps_boundary mps_pl];
-                try assumption; try reflexivity; try lia.
+                try assumption; try reflexivity; try lia; try (intros HH; discriminate HH).
               ** destruct HB as [_ _ _ (b & Hb & _)]. rewrite Hb. cbn. lia.
               ** rewrite Hbp. cbn [concat app]. rewrite (slc_cons_nth data pos (pos + 1) LF Ec) by lia. rewrite slc_nil.
                  replace (pos + 1 - pos) with 1 by lia. reflexivity.
@@ -381,7 +386,7 @@ Proof.
               subst crp. rewrite app_nil_r in Hslc.
               apply RmBnd with (held := [LF]) (k := 2) (d := reg) (eol := [LF]);
                 cbn [mp_to_boundary mp_sflag mp_set_pl mps_state mps_mpos mps_bpieces mps_cand mps_cr mps_boundary mps_pl];
-                try assumption; try reflexivity; try lia.
+                try assumption; try reflexivity; try lia; try (intros HH; discriminate HH).
               ** destruct HB as [_ _ _ (b & Hb & _)]. rewrite Hb. cbn. lia.
               ** rewrite Hbp. cbn [concat app]. rewrite (slc_snoc data sp pos LF) by (try lia; exact Ec). rewrite Hslc.
                  apply firstn_all2. rewrite app_length, <- Hslc, slc_length by lia. cbn. lia.
@@ -401,12 +406,12 @@ Proof.
         pose proof (data_loop_pos n data s1 (pos + 1) sp drp) as HP.
         specialize (IH data s1 (pos + 1) sp drp (mp_astep A c) ltac:(lia)).
         assert (HB1 : mp_base s1 (mp_astep A c)).
-        { destruct HB as [H1 H2 H3 H4]. subst s1. destruct (mps_cr s); split; cbn; try assumption; try congruence.
+        { destruct HB as [H1 H2 H3 H4]. subst s1. destruct (mps_cr s); split; mp_fields; try assumption; try congruence.
           apply mp_plwf_hd. exact H3. }
         assert (HR1 : mp_rm data s1 (pos + 1) sp drp (mp_astep A c)).
         { destruct Hfl as [(Hcr & Hcrp & Hps & Hreg)|(Hcr & Hslc & Hnc & Hnx)].
           - subst crp reg sp. subst s1. rewrite Hcr.
-            apply RmData with (crp := false) (reg := [c]); cbn; try assumption; try lia.
+            apply RmData with (crp := false) (reg := [c]); mp_fields; try assumption; try lia.
             + rewrite Hpl1. cbn [app]. change [CR; c] with ([CR] ++ [c]).
               symmetry. apply mp_hd_split_nl. exact Hnd.
             + right. split; [reflexivity|]. split; [|split; [|discriminate]].
@@ -421,10 +426,1309 @@ Proof.
               * change [CR; c] with ([CR] ++ [c]). rewrite app_assoc. apply nocr_end_snoc. apply neqb_neq. exact E1.
               * apply nocr_end_snoc. apply neqb_neq. exact E1. }
         assert (Hhz1 : mps_cr s1 = true -> nth_error data (pos + 1) <> Some CR)
-          by (subst s1; destruct (mps_cr s); cbn; discriminate).
+          by (subst s1; destruct (mps_cr s) eqn:Ecr; mp_fields; intros HH; congruence).
         assert (Hst1 : mps_state s1 = MpsData) by (subst s1; destruct (mps_cr s); cbn; exact Hst).
         specialize (IH HB1 HR1 Hst1 Hhz1 Hok).
         destruct (mp_data_loop n data s1 (pos + 1) sp drp) as [s' p' sp' d'|s' p' sp' d'|s'|]; try exact I.
         -- rewrite (slc_cons_nth data pos p' c Ec) by lia. exact IH.
         -- exact IH.
+Qed.
+
+(* ------------------------------------------------------------------ process_aside without a match, as one hand-over *)
+Definition mp_crb (s : mp_state) : bytes := if mps_cr s then [CR] else [].
+
+Lemma fold_hd_all_nil pieces : forall pl, concat pieces = [] -> fold_left (fun a x => mp_hd a x false) pieces pl = pl.
+Proof.
+  induction pieces as [|x r IH]; intros pl H; cbn [fold_left]; [reflexivity|].
+  cbn in H. apply app_eq_nil in H. destruct H as [-> H]. apply IH. exact H.
+Qed.
+
+Lemma pa_false_data s :
+  mpl_mode (mps_pl s) = MpData -> mp_dupb (mps_pl s) = false ->
+  mp_process_aside s false =
+  MpOk (mp_set_bpieces (mp_set_cr (mp_set_pl s (mp_hd (mps_pl s) (mp_crb s ++ concat (mps_bpieces s)) false)) false) []).
+Proof.
+  intros Hm Hd. unfold mp_process_aside, mp_crb. rewrite Hm. cbn [orb]. cbv zeta. f_equal.
+  destruct (mps_cr s) eqn:Ecr.
+  - rewrite mp_fold_shd_pl. mp_fields. rewrite mp_fold_hd_concat.
+    + rewrite mp_hd_split_nl by exact Hd. destruct s; reflexivity.
+    + destruct (mp_dupb (mp_hd (mps_pl s) [CR] false)) eqn:E; [|reflexivity]. apply mp_dupb_hd_rev in E. congruence.
+  - rewrite mp_fold_shd_pl. rewrite mp_fold_hd_concat by exact Hd. destruct s; cbn in *. subst. reflexivity.
+Qed.
+
+Lemma pa_false_line_nil s :
+  mpl_mode (mps_pl s) = MpLine -> mps_bpieces s = [] ->
+  mp_process_aside s false = MpOk (mp_set_cr (mp_set_pl s (mp_hd (mps_pl s) (mp_crb s) false)) false).
+Proof.
+  intros Hm Hb. unfold mp_process_aside, mp_crb. rewrite Hm. cbn [orb negb andb]. cbv zeta.
+  destruct (mps_cr s) eqn:Ecr; mp_fields; rewrite Hb; reflexivity.
+Qed.
+
+Lemma pa_false_line_cons s p1 rest :
+  mpl_mode (mps_pl s) = MpLine -> mps_bpieces s = p1 :: rest -> mps_cand s <= length p1 ->
+  mp_dupb (mps_pl s) = false -> (mps_cr s = true -> firstn (mps_cand s) p1 <> []) ->
+  let P1 := mp_hd (mps_pl s) (mp_crb s ++ firstn (mps_cand s) p1) true in
+  let P2 := skipn (mps_cand s) p1 ++ concat rest in
+  (mp_dupb P1 = false \/ P2 = []) ->
+  mp_process_aside s false = MpOk (mp_set_bpieces (mp_set_cr (mp_set_pl s (mp_hd P1 P2 false)) false) []).
+Proof.
+  intros Hm Hb Hc Hd Hf P1 P2 Hd1. unfold mp_process_aside. rewrite Hm. cbn [orb negb andb]. cbv zeta.
+  set (s1 := if mps_cr s then mp_set_cr (mp_shd s [CR] false) false else mp_set_cr s false).
+  assert (Hs1 : mps_bpieces s1 = p1 :: rest /\ mps_cand s1 = mps_cand s).
+  { subst s1. destruct (mps_cr s); mp_fields; tauto. }
+  destruct Hs1 as [Hb1 Hc1]. rewrite Hb1, Hc1.
+  rewrite slice_some by lia. rewrite sub_some by lia. rewrite slice_some by lia. cbn [skipn].
+  f_equal. rewrite mp_fold_shd_pl. mp_fields.
+  assert (HP1 : mp_hd (mps_pl s1) (firstn (mps_cand s) p1) true = P1).
+  { subst s1 P1. unfold mp_crb. destruct (mps_cr s) eqn:Ecr; mp_fields; [|reflexivity].
+    apply mp_hd_split_line; [exact Hd|apply Hf; reflexivity]. }
+  rewrite HP1.
+  replace (firstn (length p1 - mps_cand s) (skipn (mps_cand s) p1)) with (skipn (mps_cand s) p1)
+    by (symmetry; apply firstn_all2; rewrite skipn_length; lia).
+  assert (HPL : fold_left (fun a x => mp_hd a x false) rest (mp_hd P1 (skipn (mps_cand s) p1) false) = mp_hd P1 P2 false).
+  { subst P2. destruct Hd1 as [Hd1|Hd1].
+    - rewrite mp_fold_hd_concat.
+      + apply mp_hd_split_nl. exact Hd1.
+      + destruct (mp_dupb (mp_hd P1 (skipn (mps_cand s) p1) false)) eqn:E; [|reflexivity]. apply mp_dupb_hd_rev in E. congruence.
+    - apply app_eq_nil in Hd1. destruct Hd1 as [E1 E2]. rewrite E1, E2. cbn [app]. rewrite !mp_hd_nil.
+      apply fold_hd_all_nil. exact E2. }
+  rewrite HPL. subst s1. destruct s; destruct mps_cr; reflexivity.
+Qed.
+
+(* ------------------------------------------------------------------ boundary facts *)
+Lemma firstn_S_nth {A} (l : list A) n d : n < length l -> firstn (S n) l = firstn n l ++ [nth n l d].
+Proof.
+  revert n. induction l as [|x l IH]; intros n H; cbn in H; [lia|].
+  destruct n; [reflexivity|]. cbn [firstn nth app]. f_equal. apply IH. lia.
+Qed.
+
+Lemma nth_skipn' {A} (l : list A) a i d : nth i (skipn a l) d = nth (a + i) l d.
+Proof. revert l. induction a as [|a IH]; intros l; [reflexivity|]. destruct l; [destruct i; reflexivity|]. cbn. apply IH. Qed.
+
+Lemma matched_S b k : 2 <= k -> k < length b -> mp_matched b (S k) = mp_matched b k ++ [nth k b 0%N].
+Proof.
+  intros H2 Hk. unfold mp_matched. replace (S k - 2) with (S (k - 2)) by lia.
+  rewrite (firstn_S_nth _ _ 0%N) by (rewrite skipn_length; lia).
+  rewrite nth_skipn'. replace (2 + (k - 2)) with k by lia. reflexivity.
+Qed.
+
+Lemma rd_boundary b k : k < length b -> mp_rd (b ++ [0%N]) k = Some (nth k b 0%N).
+Proof. intros H. unfold mp_rd. rewrite nth_error_app1 by exact H. apply nth_error_nth'. exact H. Qed.
+
+Lemma nth_boundary b k : k < length b -> nth k (b ++ [0%N]) 0%N = nth k b 0%N.
+Proof. intros H. apply app_nth1. exact H. Qed.
+
+Lemma firstn_In' {A} (x : A) n l : In x (firstn n l) -> In x l.
+Proof. revert l. induction n as [|n IH]; intros l H; [contradiction|]. destruct l; [contradiction|]. cbn in H. destruct H as [H|H]; [left; exact H|right; apply IH; exact H]. Qed.
+
+Definition mp_plain (c : N) : Prop := c <> CR /\ c <> LF.
+
+Lemma matched_plain b0 k x : mp_bnd_okb b0 = true -> In x (mp_matched ([CR; LF; mp_DASH; mp_DASH] ++ b0) k) -> mp_plain x.
+Proof.
+  intros Hb Hin. unfold mp_matched in Hin. apply firstn_In' in Hin. cbn [app skipn] in Hin.
+  destruct Hin as [<-|[<-|Hin]]; [split; discriminate|split; discriminate|].
+  unfold mp_bnd_okb in Hb. rewrite forallb_forall in Hb. specialize (Hb x Hin).
+  apply andb_true_iff in Hb. destruct Hb as [H1 H2]. split; apply N.eqb_neq; [destruct (x =? CR)%N|destruct (x =? LF)%N]; try reflexivity; discriminate.
+Qed.
+
+(* rescanning matched bytes in STATE_DATA does nothing *)
+Lemma data_loop_skip m : forall n data s p sp drp,
+  mps_cr s = false ->
+  (forall i, p <= i -> i < p + m -> exists c, nth_error data i = Some c /\ mp_plain c) ->
+  mp_data_loop (m + n) data s p sp drp = mp_data_loop n data s (p + m) sp drp.
+Proof.
+  induction m as [|m IH]; intros n data s p sp drp Hcr Hall.
+  - replace (p + 0) with p by lia. reflexivity.
+  - cbn [Nat.add mp_data_loop]. destruct (Hall p ltac:(lia) ltac:(lia)) as (c & Hc & Hc1 & Hc2).
+    unfold mp_rd. rewrite Hc.
+    destruct (c =? CR)%N eqn:E1; [apply N.eqb_eq in E1; congruence|].
+    destruct (c =? LF)%N eqn:E2; [apply N.eqb_eq in E2; congruence|].
+    rewrite Hcr. rewrite IH; [f_equal; lia|exact Hcr|].
+    intros i H1 H2. apply Hall; lia.
+Qed.
+
+(* ------------------------------------------------------------------ line-end trimming before a delimiter *)
+Lemma firstn_last_nth (b : bytes) n X y : firstn n b = X ++ [y] -> n <= length b -> nth_error b (n - 1) = Some y /\ n = S (length X).
+Proof.
+  intros H Hn. assert (Hl : n = S (length X)).
+  { apply (f_equal (@length N)) in H. rewrite firstn_length, app_length in H. cbn in H. lia. }
+  split; [|exact Hl]. rewrite <- (firstn_skipn n b) at 1. rewrite nth_error_app1 by (rewrite firstn_length; lia).
+  rewrite H. rewrite nth_error_app2 by lia. replace (n - 1 - length X) with 0 by lia. reflexivity.
+Qed.
+
+Lemma firstn_app_exact {A} (X Y : list A) : firstn (length X) (X ++ Y) = X.
+Proof. rewrite firstn_app, Nat.sub_diag, firstn_all. cbn. apply app_nil_r. Qed.
+
+Lemma firstn_firstn_le (b : bytes) m n : m <= n -> firstn m (firstn n b) = firstn m b.
+Proof. intros H. rewrite firstn_firstn. f_equal. lia. Qed.
+
+Lemma nocr_last (d : bytes) c : mp_nocr_end (d ++ [c]) -> c <> CR.
+Proof. intros [H|H]; [destruct d; discriminate|]. rewrite last_last in H. exact H. Qed.
+
+(* the two reads of htp_martp_process_aside(matched) on the first stored piece *)
+Lemma pa_trim_spec (b : bytes) cand cr d eol :
+  cand <= length b -> firstn cand b = d ++ eol -> mp_eolshape cr d eol ->
+  exists l2,
+    (let lx1 := if 0 <? cand then match mp_rd b (cand - 1) with Some c => Some (if (c =? LF)%N then cand - 1 else cand) | None => None end
+                else Some cand in
+     match lx1 with
+     | None => None
+     | Some l1 => if (l1 <? cand) && (0 <? l1)
+                  then match mp_rd b (l1 - 1) with Some c => Some (if (c =? CR)%N then l1 - 1 else l1) | None => None end
+                  else Some l1
+     end) = Some l2 /\ firstn l2 b = d.
+Proof.
+  intros Hc Hf Hs. unfold mp_rd.
+  destruct Hs as [(_ & -> & ->)|[(_ & -> & Hn)|[(_ & ->)|(_ & -> & ->)]]].
+  - (* nothing before: cand = 0 *)
+    assert (cand = 0) by (apply (f_equal (@length N)) in Hf; rewrite firstn_length in Hf; cbn in Hf; lia). subst cand.
+    cbn. eauto.
+  - destruct (firstn_last_nth b cand d LF Hf Hc) as [Hr Hl].
+    replace (0 <? cand) with true by (symmetry; apply Nat.ltb_lt; lia). rewrite Hr. change (LF =? LF)%N with true. cbv iota.
+    replace (cand - 1 <? cand) with true by (symmetry; apply Nat.ltb_lt; lia). cbn [andb].
+    assert (Hfd : firstn (cand - 1) b = d).
+    { rewrite <- (firstn_firstn_le b (cand - 1) cand) by lia. rewrite Hf. replace (cand - 1) with (length d) by lia. apply firstn_app_exact. }
+    destruct (0 <? cand - 1) eqn:E0.
+    + apply Nat.ltb_lt in E0.
+      destruct d as [|d0 d'] using rev_ind; [cbn in Hl; lia|]. clear IHd'.
+      destruct (firstn_last_nth b (cand - 1) d' d0 Hfd ltac:(lia)) as [Hr2 Hl2]. rewrite Hr2.
+      assert (d0 <> CR) by (eapply nocr_last; exact Hn).
+      destruct (d0 =? CR)%N eqn:E; [apply N.eqb_eq in E; congruence|]. eauto.
+    + eauto.
+  - change [CR; LF] with ([CR] ++ [LF]) in Hf. rewrite app_assoc in Hf.
+    destruct (firstn_last_nth b cand (d ++ [CR]) LF Hf Hc) as [Hr Hl]. rewrite app_length in Hl. cbn in Hl.
+    replace (0 <? cand) with true by (symmetry; apply Nat.ltb_lt; lia). rewrite Hr. change (LF =? LF)%N with true. cbv iota.
+    replace (cand - 1 <? cand) with true by (symmetry; apply Nat.ltb_lt; lia).
+    replace (0 <? cand - 1) with true by (symmetry; apply Nat.ltb_lt; lia). cbn [andb].
+    assert (Hfd : firstn (cand - 1) b = d ++ [CR]).
+    { rewrite <- (firstn_firstn_le b (cand - 1) cand) by lia. rewrite Hf. replace (cand - 1) with (length (d ++ [CR])) by (rewrite app_length; cbn; lia).
+      apply firstn_app_exact. }
+    destruct (firstn_last_nth b (cand - 1) d CR Hfd ltac:(lia)) as [Hr2 Hl2]. rewrite Hr2. change (CR =? CR)%N with true. cbv iota.
+    eexists; split; [reflexivity|].
+    rewrite <- (firstn_firstn_le b (cand - 1 - 1) (cand - 1)) by lia. rewrite Hfd. replace (cand - 1 - 1) with (length d) by lia. apply firstn_app_exact.
+  - cbn [app] in Hf. destruct (firstn_last_nth b cand [] LF Hf Hc) as [Hr Hl]. cbn in Hl. subst cand. cbn in Hr |- *. rewrite Hr. cbn. eauto.
+Qed.
+
+Lemma nth_error_skipn' {A} (l : list A) a i : nth_error (skipn a l) i = nth_error l (a + i).
+Proof. revert l. induction a as [|a IH]; intros l; [reflexivity|]. destruct l; [destruct i; reflexivity|]. cbn. apply IH. Qed.
+
+Lemma pa_trim_le (b : bytes) cand l2 :
+    (let lx1 := if 0 <? cand then match mp_rd b (cand - 1) with Some c => Some (if (c =? LF)%N then cand - 1 else cand) | None => None end
+                else Some cand in
+     match lx1 with
+     | None => None
+     | Some l1 => if (l1 <? cand) && (0 <? l1)
+                  then match mp_rd b (l1 - 1) with Some c => Some (if (c =? CR)%N then l1 - 1 else l1) | None => None end
+                  else Some l1
+     end) = Some l2 -> l2 <= cand.
+Proof.
+  cbv zeta. destruct (0 <? cand).
+  - destruct (mp_rd b (cand - 1)) as [c|]; [|discriminate].
+    destruct (c =? LF)%N.
+    + destruct ((cand - 1 <? cand) && (0 <? cand - 1)).
+      * destruct (mp_rd b (cand - 1 - 1)) as [c2|]; [|discriminate]. destruct (c2 =? CR)%N; intros H; injection H as <-; lia.
+      * intros H; injection H as <-; lia.
+    + destruct ((cand <? cand) && (0 <? cand)).
+      * destruct (mp_rd b (cand - 1)) as [c2|]; [|discriminate]. destruct (c2 =? CR)%N; intros H; injection H as <-; lia.
+      * intros H; injection H as <-; lia.
+  - destruct ((cand <? cand) && (0 <? cand)).
+    + destruct (mp_rd b (cand - 1)) as [c2|]; [|discriminate]. destruct (c2 =? CR)%N; intros H; injection H as <-; lia.
+    + intros H; injection H as <-; lia.
+Qed.
+
+(* the two independent reads of htp_mpartp_parse on the current chunk *)
+Lemma parse_trim_spec data sp drp cr d eol :
+  sp <= drp -> drp <= length data -> mp_slc data sp drp = d ++ eol -> mp_eolshape cr d eol ->
+  exists dl2,
+    (let dlen := drp - sp in
+     let d1 := if 0 <? dlen then match mp_rd data (sp + dlen - 1) with Some c => Some (if (c =? LF)%N then dlen - 1 else dlen) | None => None end
+               else Some dlen in
+     match d1 with
+     | None => None
+     | Some dl1 => if 0 <? dl1 then match mp_rd data (sp + dl1 - 1) with Some c => Some (if (c =? CR)%N then dl1 - 1 else dl1) | None => None end
+                   else Some dl1
+     end) = Some dl2 /\ mp_slc data sp (sp + dl2) = d.
+Proof.
+  intros H1 H2 Hf Hs.
+  (* reduce to the piece lemma on b := skipn sp data, reading through the same indices *)
+  set (b := skipn sp data).
+  assert (Hrd : forall i, mp_rd data (sp + i) = nth_error b i) by (intros i; unfold mp_rd, b; rewrite nth_error_skipn'; reflexivity).
+  assert (Hfb : firstn (drp - sp) b = d ++ eol) by exact Hf.
+  assert (Hcb : drp - sp <= length b) by (unfold b; rewrite skipn_length; lia).
+  cbv zeta.
+  destruct Hs as [(_ & -> & ->)|[(_ & -> & Hn)|[(_ & ->)|(_ & -> & ->)]]].
+  - assert (drp - sp = 0) by (apply (f_equal (@length N)) in Hfb; rewrite firstn_length in Hfb; cbn in Hfb; lia).
+    rewrite H. cbn. exists 0. split; [reflexivity|]. replace (sp + 0) with sp by lia. apply slc_nil.
+  - destruct (firstn_last_nth b (drp - sp) d LF Hfb Hcb) as [Hr Hl].
+    replace (0 <? drp - sp) with true by (symmetry; apply Nat.ltb_lt; lia).
+    replace (sp + (drp - sp) - 1) with (sp + (drp - sp - 1)) by lia. rewrite Hrd, Hr. change (LF =? LF)%N with true. cbv iota.
+    assert (Hfd : firstn (drp - sp - 1) b = d).
+    { rewrite <- (firstn_firstn_le b (drp - sp - 1) (drp - sp)) by lia. rewrite Hfb. replace (drp - sp - 1) with (length d) by lia. apply firstn_app_exact. }
+    destruct (0 <? drp - sp - 1) eqn:E0.
+    + apply Nat.ltb_lt in E0.
+      destruct d as [|d0 d'] using rev_ind; [cbn in Hl; lia|]. clear IHd'.
+      destruct (firstn_last_nth b (drp - sp - 1) d' d0 Hfd ltac:(lia)) as [Hr2 Hl2].
+      replace (sp + (drp - sp - 1) - 1) with (sp + (drp - sp - 1 - 1)) by lia. rewrite Hrd, Hr2.
+      assert (d0 <> CR) by (eapply nocr_last; exact Hn).
+      destruct (d0 =? CR)%N eqn:E; [apply N.eqb_eq in E; congruence|].
+      eexists; split; [reflexivity|]. unfold mp_slc. replace (sp + (drp - sp - 1) - sp) with (drp - sp - 1) by lia. exact Hfd.
+    + eexists; split; [reflexivity|]. unfold mp_slc. replace (sp + (drp - sp - 1) - sp) with (drp - sp - 1) by lia. exact Hfd.
+  - change [CR; LF] with ([CR] ++ [LF]) in Hfb. rewrite app_assoc in Hfb.
+    destruct (firstn_last_nth b (drp - sp) (d ++ [CR]) LF Hfb Hcb) as [Hr Hl]. rewrite app_length in Hl. cbn in Hl.
+    replace (0 <? drp - sp) with true by (symmetry; apply Nat.ltb_lt; lia).
+    replace (sp + (drp - sp) - 1) with (sp + (drp - sp - 1)) by lia. rewrite Hrd, Hr. change (LF =? LF)%N with true. cbv iota.
+    replace (0 <? drp - sp - 1) with true by (symmetry; apply Nat.ltb_lt; lia).
+    assert (Hfd : firstn (drp - sp - 1) b = d ++ [CR]).
+    { rewrite <- (firstn_firstn_le b (drp - sp - 1) (drp - sp)) by lia. rewrite Hfb.
+      replace (drp - sp - 1) with (length (d ++ [CR])) by (rewrite app_length; cbn; lia). apply firstn_app_exact. }
+    destruct (firstn_last_nth b (drp - sp - 1) d CR Hfd ltac:(lia)) as [Hr2 Hl2].
+    replace (sp + (drp - sp - 1) - 1) with (sp + (drp - sp - 1 - 1)) by lia. rewrite Hrd, Hr2. change (CR =? CR)%N with true. cbv iota.
+    eexists; split; [reflexivity|]. unfold mp_slc. replace (sp + (drp - sp - 1 - 1) - sp) with (drp - sp - 1 - 1) by lia.
+    fold b. rewrite <- (firstn_firstn_le b (drp - sp - 1 - 1) (drp - sp - 1)) by lia. rewrite Hfd. replace (drp - sp - 1 - 1) with (length d) by lia. apply firstn_app_exact.
+  - cbn [app] in Hfb. destruct (firstn_last_nth b (drp - sp) [] LF Hfb Hcb) as [Hr Hl]. cbn in Hl. rewrite Hl in *.
+    cbn [Nat.ltb Nat.leb]. replace (sp + 1 - 1) with (sp + 0) by lia. rewrite Hrd. replace (1 - 1) with 0 in Hr by lia. rewrite Hr. change (LF =? LF)%N with true. cbn.
+    exists 0. split; [reflexivity|]. replace (sp + 0) with sp by lia. apply slc_nil.
+Qed.
+
+(* ------------------------------------------------------------------ case STATE_BOUNDARY *)
+Record mp_bndrel (data : bytes) (s : mp_state) (pos sp drp : nat) (A : mp_ast) (held : bytes) (k : nat) (d eol : bytes) : Prop := {
+  br_m : ma_m A = AmBnd held k;
+  br_k : mps_mpos s = k;
+  br_k2 : 2 <= k;
+  br_kl : k < length (mps_boundary s);
+  br_first : firstn (mps_cand s) (concat (mps_bpieces s) ++ mp_slc data sp pos) = d ++ eol;
+  br_rest : skipn (mps_cand s) (concat (mps_bpieces s) ++ mp_slc data sp pos) = mp_matched (mps_boundary s) k;
+  br_held : held = (if mps_cr s then [CR] else []) ++ eol;
+  br_shape : mp_eolshape (mps_cr s) d eol;
+  br_pl : ma_pl A = mp_hd (mps_pl s) d false;
+  br_init : eol = [] -> mp_dupb (mps_pl s) = false;
+  br_sp : sp <= pos;
+  br_pos : pos <= length data;
+  br_nil : mps_bpieces s = [] -> mps_cand s + sp = drp /\ sp <= drp /\ drp <= pos;
+  br_cons : forall (p1 : bytes) (r : list bytes), mps_bpieces s = p1 :: r -> mps_cand s <= length p1 /\ sp = 0 /\ drp = 0
+}.
+
+Lemma rm_bnd_inv data s pos sp drp A :
+  mp_rm data s pos sp drp A -> mps_state s = MpsBoundary -> exists held k d eol, mp_bndrel data s pos sp drp A held k d eol.
+Proof.
+  intros [crp reg H1|held k d eol H1 H2 H3 H4 H5 H6 H7 H8 H9 H10 H11 H12 H13 H14 H15|H1] Hs.
+  - congruence.
+  - exists held, k, d, eol. split; assumption.
+  - rewrite Hs in H1. destruct (ma_m A); contradiction.
+Qed.
+
+Lemma bndrel_cand_le data s pos sp drp A held k d eol :
+  mp_bndrel data s pos sp drp A held k d eol -> mps_cand s <= length (concat (mps_bpieces s) ++ mp_slc data sp pos).
+Proof.
+  intros R. rewrite app_length, slc_length by (apply R). destruct (mps_bpieces s) as [|p1 r] eqn:E.
+  - destruct (br_nil _ _ _ _ _ _ _ _ _ _ R E) as (H1 & H2 & H3). cbn. lia.
+  - destruct (br_cons _ _ _ _ _ _ _ _ _ _ R p1 r E) as (H1 & _). cbn. rewrite app_length. lia.
+Qed.
+
+Lemma bndrel_cand_ok data s pos sp drp A held k d eol :
+  mp_bndrel data s pos sp drp A held k d eol -> mp_cand_ok s.
+Proof.
+  intros R. unfold mp_cand_ok. destruct (mps_bpieces s) as [|p1 r] eqn:E; [exact I|].
+  apply (br_cons _ _ _ _ _ _ _ _ _ _ R p1 r E).
+Qed.
+
+Lemma rm_single_any data data' s pos sp drp pos' sp' drp' A :
+  mp_rm data s pos sp drp A -> mp_is_single (mps_state s) -> sp' <= pos' -> pos' <= length data' -> mp_rm data' s pos' sp' drp' A.
+Proof.
+  intros [crp reg H1|held k d eol H1|H1 H2 H3 H4 H5 H6] Hs Ha Hb.
+  - destruct Hs as [HH|[HH|[HH|HH]]]; congruence.
+  - destruct Hs as [HH|[HH|[HH|HH]]]; congruence.
+  - apply RmSingle; assumption.
+Qed.
+
+(* a completed delimiter *)
+Lemma bnd_matched_sim data s pos sp drp A held k d eol c :
+  mp_base s A -> mp_bndrel data s pos sp drp A held k d eol -> mps_state s = MpsBoundary ->
+  nth_error data pos = Some c -> c = nth k (mps_boundary s) 0%N -> S k = length (mps_boundary s) ->
+  ma_ok (mp_astep A c) = true ->
+  match mp_boundary_matched data (mp_set_mpos s (S k)) (pos + 1) sp drp with
+  | MpRet s' => mp_base s' (mp_astep A c) /\ mp_rm [] s' 0 0 0 (mp_astep A c)
+  | MpGoto s' p' sp' d' => mp_base s' (mp_astep A c) /\ mp_rm data s' p' sp' d' (mp_astep A c) /\ p' = pos + 1 /\ mps_state s' = MpsIsLast2 /\ p' < length data
+  | _ => True
+  end.
+Proof.
+  intros HB R Hst Ec Hc Hk Hok.
+  assert (Hlt : pos < length data) by (apply nth_error_Some; congruence).
+  destruct HB as [Hb Hf Hwf Hbok].
+  (* the reference step *)
+  assert (HA : mp_astep A c = mk_mp_ast (ma_b A) (mp_amatch (ma_pl A)) AmIsLast2 (ma_ok A && negb (mp_openlineb (ma_pl A)))).
+  { unfold mp_astep. rewrite (br_m _ _ _ _ _ _ _ _ _ _ R). cbv zeta. rewrite Hb, nth_boundary by (apply R).
+    rewrite <- Hc, N.eqb_refl. rewrite Hk, Nat.eqb_refl. reflexivity. }
+  rewrite HA in Hok |- *. cbn [ma_ok] in Hok. apply andb_true_iff in Hok. destruct Hok as [Hok Hopen].
+  apply negb_true_iff in Hopen. rewrite (br_pl _ _ _ _ _ _ _ _ _ _ R) in Hopen.
+  pose proof (mp_hd_closed_line _ _ Hopen) as Hline.
+  unfold mp_boundary_matched.
+  (* process_aside(matched) *)
+  set (s0 := mp_set_mpos s (S k)).
+  assert (Hpa : exists s1, mp_process_aside s0 true = MpOk s1 /\ mps_pl s1 = (match mps_bpieces s with [] => mps_pl s | _ => mp_hd (mps_pl s) d false end) /\
+                  mps_bpieces s1 = [] /\ mps_cr s1 = false /\ mps_boundary s1 = mps_boundary s /\ mps_fault s1 = mps_fault s).
+  { unfold mp_process_aside. cbn [orb negb andb]. cbv zeta. subst s0. mp_fields.
+    destruct (mps_bpieces s) as [|p1 r] eqn:Ebp.
+    - eexists; split; [reflexivity|]. mp_fields. tauto.
+    - destruct (br_cons _ _ _ _ _ _ _ _ _ _ R p1 r Ebp) as (Hc1 & Hsp0 & Hdrp0).
+      assert (Hf1 : firstn (mps_cand s) p1 = d ++ eol).
+      { rewrite <- (br_first _ _ _ _ _ _ _ _ _ _ R). rewrite Ebp. cbn [concat]. rewrite <- !app_assoc.
+        rewrite firstn_app. replace (mps_cand s - length p1) with 0 by lia. cbn [firstn]. rewrite app_nil_r. reflexivity. }
+      destruct (pa_trim_spec p1 (mps_cand s) (mps_cr s) d eol Hc1 Hf1 (br_shape _ _ _ _ _ _ _ _ _ _ R)) as (l2 & El2 & Hl2).
+      pose proof (pa_trim_le p1 (mps_cand s) l2 El2) as Hle.
+      cbv zeta in El2.
+      destruct (if 0 <? mps_cand s then _ else _) as [l1|] eqn:E1; [|discriminate El2].
+      rewrite El2. rewrite slice_some by (cbn; lia).
+      cbn [skipn]. rewrite Hl2. eexists; split; [reflexivity|]. mp_fields. tauto. }
+  destruct Hpa as (s1 & Epa & Hpl1 & Hbp1 & Hcr1 & Hbd1 & Hf1). rewrite Epa.
+  (* the data before the delimiter in the current chunk *)
+  assert (Hsd : sp <= drp /\ drp <= pos).
+  { destruct (mps_bpieces s) as [|p1 r] eqn:Ebp.
+    - destruct (br_nil _ _ _ _ _ _ _ _ _ _ R Ebp). lia.
+    - destruct (br_cons _ _ _ _ _ _ _ _ _ _ R p1 r Ebp) as (_ & -> & ->). lia. }
+  rewrite sub_some by lia.
+  assert (Htrim : exists dl2,
+    (let dlen := drp - sp in
+     let d1 := if 0 <? dlen then match mp_rd data (sp + dlen - 1) with Some c => Some (if (c =? LF)%N then dlen - 1 else dlen) | None => None end
+               else Some dlen in
+     match d1 with
+     | None => None
+     | Some dl1 => if 0 <? dl1 then match mp_rd data (sp + dl1 - 1) with Some c => Some (if (c =? CR)%N then dl1 - 1 else dl1) | None => None end
+                   else Some dl1
+     end) = Some dl2 /\ sp + dl2 <= length data /\
+     mp_hd (mps_pl s1) (mp_slc data sp (sp + dl2)) true = mp_hd (mps_pl s) d false).
+  { destruct (mps_bpieces s) as [|p1 r] eqn:Ebp.
+    - destruct (br_nil _ _ _ _ _ _ _ _ _ _ R Ebp) as (Hcs & _ & _).
+      assert (Hsl : mp_slc data sp drp = d ++ eol).
+      { rewrite <- (br_first _ _ _ _ _ _ _ _ _ _ R). rewrite Ebp. cbn [concat app].
+        rewrite (slc_app data sp drp pos) by lia. rewrite firstn_app, slc_length by lia.
+        replace (mps_cand s - (drp - sp)) with 0 by lia. cbn [firstn]. rewrite app_nil_r.
+        symmetry. apply firstn_all2. rewrite slc_length by lia. lia. }
+      destruct (parse_trim_spec data sp drp (mps_cr s) d eol ltac:(lia) ltac:(lia) Hsl (br_shape _ _ _ _ _ _ _ _ _ _ R)) as (dl2 & E2 & H2).
+      exists dl2. split; [exact E2|]. split.
+      + apply (f_equal (@length N)) in H2. apply (f_equal (@length N)) in Hsl. rewrite app_length in Hsl.
+        destruct (le_lt_dec (sp + dl2) (length data)); [lia|]. unfold mp_slc in H2. rewrite firstn_length, skipn_length in H2.
+        rewrite slc_length in Hsl by lia. lia.
+      + rewrite H2, Hpl1. exact Hline.
+    - destruct (br_cons _ _ _ _ _ _ _ _ _ _ R p1 r Ebp) as (_ & -> & ->).
+      exists 0. cbn. split; [reflexivity|]. split; [lia|]. exact Hpl1. }
+  destruct Htrim as (dl2 & Etr & Hdl & Hpl2). cbv zeta in Etr.
+  destruct (if 0 <? drp - sp then _ else _) as [dl1|] eqn:E1; [|discriminate Etr].
+  rewrite Etr. rewrite slice_slc by exact Hdl. cbv zeta.
+  assert (Hplf : mp_hb (if mp_has c_mp_SEEN_LAST_BOUNDARY (mpl_flags (mp_pl_bump (mp_hd (mps_pl s1) (mp_slc data sp (sp + dl2)) true)))
+                       then mp_pl_flag (mp_pl_bump (mp_hd (mps_pl s1) (mp_slc data sp (sp + dl2)) true)) c_mp_PART_AFTER_LAST_BOUNDARY
+                       else mp_pl_bump (mp_hd (mps_pl s1) (mp_slc data sp (sp + dl2)) true)) = mp_amatch (ma_pl A)).
+  { rewrite Hpl2, <- (br_pl _ _ _ _ _ _ _ _ _ _ R). reflexivity. }
+  destruct (length data <=? pos + 1) eqn:El.
+  - split.
+    + split; mp_fields; try congruence; [|rewrite Hbd1; exact Hbok]. apply mp_plwf_hb.
+      assert (Hw : mp_plwf (mp_hd (mps_pl s1) (mp_slc data sp (sp + dl2)) true))
+        by (apply mp_plwf_hd; rewrite Hpl1; destruct (mps_bpieces s); [exact Hwf|apply mp_plwf_hd; exact Hwf]).
+      destruct (mp_has _ _); exact Hw.
+    + apply RmSingle; mp_fields; try assumption; try lia; [exact I|]. exact (eq_sym Hplf).
+  - apply Nat.leb_gt in El. split; [|split; [|split; [reflexivity|split; [reflexivity|exact El]]]].
+    + split; mp_fields; try congruence; [|rewrite Hbd1; exact Hbok]. apply mp_plwf_hb.
+      assert (Hw : mp_plwf (mp_hd (mps_pl s1) (mp_slc data sp (sp + dl2)) true))
+        by (apply mp_plwf_hd; rewrite Hpl1; destruct (mps_bpieces s); [exact Hwf|apply mp_plwf_hd; exact Hwf]).
+      destruct (mp_has _ _); exact Hw.
+    + apply RmSingle; mp_fields; try assumption; try lia; [exact I|]. exact (eq_sym Hplf).
+Qed.
+
+(* ------------------------------------------------------------------ a failed boundary test *)
+Lemma nth_error_firstn' {A} (l : list A) n j : j < n -> nth_error (firstn n l) j = nth_error l j.
+Proof.
+  revert l j. induction n as [|n IH]; intros l j H; [lia|]. destruct l; [destruct j; reflexivity|].
+  destruct j; [reflexivity|]. cbn. apply IH. lia.
+Qed.
+
+Lemma slc_elems (data : bytes) a b L i :
+  mp_slc data a b = L -> a <= i -> i < b -> b <= length data -> exists x, nth_error data i = Some x /\ In x L.
+Proof.
+  intros HL Ha Hb Hl. destruct (nth_error data i) as [x|] eqn:E.
+  - exists x. split; [reflexivity|]. subst L. unfold mp_slc.
+    apply nth_error_In with (n := i - a). rewrite nth_error_firstn' by lia. rewrite nth_error_skipn'.
+    replace (a + (i - a)) with i by lia. exact E.
+  - apply nth_error_None in E. lia.
+Qed.
+
+Lemma nocr_end_app_plain (L M : bytes) : M <> [] -> (forall x, In x M -> mp_plain x) -> mp_nocr_end (L ++ M).
+Proof.
+  intros Hne Hall. right. destruct M as [|m0 M'] using rev_ind; [congruence|]. rewrite app_assoc, last_last.
+  apply (Hall m0). apply in_or_app. right. left. reflexivity.
+Qed.
+
+Lemma nocr_end_shape cr d eol : mp_eolshape cr d eol -> mp_nocr_end (d ++ eol).
+Proof.
+  intros [(_ & -> & ->)|[(_ & -> & _)|[(_ & ->)|(_ & -> & ->)]]].
+  - left. reflexivity.
+  - right. rewrite last_last. discriminate.
+  - right. change [CR; LF] with ([CR] ++ [LF]). rewrite app_assoc, last_last. discriminate.
+  - right. cbn. discriminate.
+Qed.
+
+Lemma shape_X s d eol held :
+  held = (if mps_cr s then [CR] else []) ++ eol -> mp_eolshape (mps_cr s) d eol ->
+  d ++ held = mp_crb s ++ d ++ eol /\ (held = [] -> eol = [] /\ mp_crb s ++ d ++ eol = []) /\
+  (mps_cr s = true -> d ++ eol <> []).
+Proof.
+  intros -> Hs. unfold mp_crb.
+  destruct Hs as [(Hc & -> & ->)|[(Hc & -> & _)|[(Hc & ->)|(Hc & -> & ->)]]]; rewrite Hc; cbn [app];
+    (split; [reflexivity|split; [intros HH; try discriminate HH; try (destruct d; discriminate HH); tauto|intros HH; try discriminate HH; try (destruct d; discriminate); try discriminate]]).
+Qed.
+
+Lemma release_T s A data pos sp drp held k d eol c :
+  mp_base s A -> mp_bndrel data s pos sp drp A held k d eol -> mps_state s = MpsBoundary ->
+  c <> nth k (mps_boundary s) 0%N -> ma_ok (mp_astep A c) = true ->
+  let X := mp_crb s ++ d ++ eol in
+  let P1 := mp_hd (mps_pl s) X true in
+  let T := mp_hd P1 (mp_matched (mps_boundary s) k) false in
+  exists ok1, mp_astep A c = mp_astep_data (ma_b A) T ok1 false c /\ ok1 = true /\
+    mp_dupb (mps_pl s) = false /\ (mp_matched (mps_boundary s) k <> [] -> mp_dupb P1 = false).
+Proof.
+  intros HB R Hst Hc Hok X P1 T.
+  destruct HB as [Hb Hf Hwf Hbok].
+  destruct (shape_X s d eol held (br_held _ _ _ _ _ _ _ _ _ _ R) (br_shape _ _ _ _ _ _ _ _ _ _ R)) as (HX & Hnil & _).
+  assert (HA : mp_astep A c = let '(pl1, ok1) := mp_arelease (ma_b A) (ma_pl A) (ma_ok A) held k in mp_astep_data (ma_b A) pl1 ok1 false c).
+  { unfold mp_astep. rewrite (br_m _ _ _ _ _ _ _ _ _ _ R). cbv zeta. rewrite Hb, nth_boundary by (apply R).
+    destruct (c =? nth k (mps_boundary s) 0)%N eqn:E; [apply N.eqb_eq in E; congruence|]. reflexivity. }
+  rewrite HA in Hok |- *. unfold mp_arelease in *.
+  destruct (mp_ahd (ma_pl A) (ma_ok A) held true) as [pla oka] eqn:Ea.
+  destruct (mp_ahd pla oka (mp_matched (ma_b A) k) false) as [plb okb] eqn:Eb.
+  apply astep_data_ok in Hok. subst okb.
+  pose proof (ahd_ok pla oka (mp_matched (ma_b A) k) false) as Hb2. rewrite Eb in Hb2. destruct (Hb2 eq_refl) as [-> Hd2].
+  pose proof (ahd_ok (ma_pl A) (ma_ok A) held true) as Ha2. rewrite Ea in Ha2. destruct (Ha2 eq_refl) as [_ Hd1].
+  unfold mp_ahd in Ea, Eb. injection Ea as <- _. injection Eb as <- _.
+  (* no K3 on the concrete side *)
+  assert (Hd0 : mp_dupb (mps_pl s) = false).
+  { destruct Hd1 as [Hd1|Hd1].
+    - apply (br_init _ _ _ _ _ _ _ _ _ _ R). apply Hnil. exact Hd1.
+    - rewrite (br_pl _ _ _ _ _ _ _ _ _ _ R) in Hd1. destruct (mp_dupb (mps_pl s)) eqn:E; [|reflexivity].
+      rewrite (mp_dupb_hd _ d E) in Hd1. discriminate. }
+  assert (HP1 : mp_hd (ma_pl A) held true = P1).
+  { rewrite (br_pl _ _ _ _ _ _ _ _ _ _ R). subst P1 X. rewrite <- HX.
+    destruct held as [|h0 held'].
+    - rewrite app_nil_r. destruct (Hnil eq_refl) as [-> HX0]. rewrite app_nil_r in HX.
+      assert (d = []) by (destruct (br_shape _ _ _ _ _ _ _ _ _ _ R) as [(_ & _ & ->)|[(_ & H & _)|[(_ & H)|(_ & H & _)]]]; try discriminate H; reflexivity).
+      subst d. reflexivity.
+    - apply mp_hd_split_line; [exact Hd0|discriminate]. }
+  exists true. rewrite HP1, Hb. split; [reflexivity|]. split; [reflexivity|]. split; [exact Hd0|].
+  intros Hne. destruct Hd2 as [Hd2|Hd2]; [rewrite Hb in Hd2; congruence|]. rewrite HP1 in Hd2. exact Hd2.
+Qed.
+
+Lemma finish_rel s s' A data pos sp' d' T :
+  mp_base s A -> mps_boundary s' = mps_boundary s -> mps_fault s' = mps_fault s -> mp_plwf (mps_pl s') ->
+  mps_state s' = MpsData -> mps_bpieces s' = [] -> mps_cr s' = false -> sp' <= pos -> pos <= length data ->
+  T = mp_hd (mps_pl s') (mp_slc data sp' pos) false -> mp_nocr_end (mp_slc data sp' pos) ->
+  mp_base s' (mk_mp_ast (ma_b A) T (AmData false) true) /\ mp_rm data s' pos sp' d' (mk_mp_ast (ma_b A) T (AmData false) true).
+Proof.
+  intros [Hb Hf Hwf Hbok] H1 H2 H3 H4 H5 H6 H7 H8 H9 H10. split.
+  - split; mp_fields; [congruence|congruence|exact H3|rewrite H1; exact Hbok].
+  - apply RmData with (crp := false) (reg := mp_slc data sp' pos); mp_fields; try assumption; try reflexivity.
+    right. split; [exact H6|]. split; [rewrite app_nil_r; reflexivity|]. split; [intros _; exact H10|discriminate].
+Qed.
+
+Lemma firstn_app_le {A} (X Y : list A) n : n <= length X -> firstn n (X ++ Y) = firstn n X.
+Proof. intros H. rewrite firstn_app. replace (n - length X) with 0 by lia. cbn. apply app_nil_r. Qed.
+Lemma skipn_app_le {A} (X Y : list A) n : n <= length X -> skipn n (X ++ Y) = skipn n X ++ Y.
+Proof. intros H. rewrite skipn_app. replace (n - length X) with 0 by lia. reflexivity. Qed.
+
+Lemma bnd_mismatch_sim data s pos sp drp A held k d eol c :
+  mp_base s A -> mp_bndrel data s pos sp drp A held k d eol -> mps_state s = MpsBoundary ->
+  nth_error data pos = Some c -> c <> nth k (mps_boundary s) 0%N ->
+  ma_ok (mp_astep A c) = true ->
+  match mp_process_aside s false with
+  | MpOk s1 =>
+    match (match mpl_mode (mps_pl s1) with
+           | MpLine => match mp_sub drp sp with
+                       | Some k0 => match mp_slice data sp k0 with
+                                    | Some dd => MpGoto (mp_set_state (mp_shd s1 dd true) MpsData) pos drp drp
+                                    | None => MpErr end
+                       | None => MpErr end
+           | MpData => MpGoto (mp_set_state s1 MpsData) drp sp drp
+           end) with
+    | MpGoto s' p' sp' d' =>
+      exists Arel, mp_astep Arel c = mp_astep A c /\ mp_base s' Arel /\ mp_rm data s' pos sp' d' Arel /\
+        mps_cr s' = false /\ mps_state s' = MpsData /\ p' <= pos /\
+        (forall i, p' <= i -> i < pos -> exists x, nth_error data i = Some x /\ mp_plain x)
+    | _ => True
+    end
+  | _ => True
+  end.
+Proof.
+  intros HB R Hst Ec Hc Hok.
+  assert (Hlt : pos < length data) by (apply nth_error_Some; congruence).
+  destruct (release_T s A data pos sp drp held k d eol c HB R Hst Hc Hok) as (ok1 & HA & -> & Hd0 & Hd1).
+  set (X := mp_crb s ++ d ++ eol) in *. set (P1 := mp_hd (mps_pl s) X true) in *.
+  set (M := mp_matched (mps_boundary s) k) in *. set (T := mp_hd P1 M false) in *.
+  pose proof HB as [Hb Hf Hwf (b0 & Hb0 & Hbok)].
+  assert (HMplain : forall x, In x M -> mp_plain x) by (intros x Hx; subst M; rewrite Hb0 in Hx; eapply matched_plain; eauto).
+  destruct (shape_X s d eol held (br_held _ _ _ _ _ _ _ _ _ _ R) (br_shape _ _ _ _ _ _ _ _ _ _ R)) as (HX & Hnil & Hcrne).
+  pose proof (br_sp _ _ _ _ _ _ _ _ _ _ R) as Hsp. 
+  assert (HArel : mp_astep (mk_mp_ast (ma_b A) T (AmData false) true) c = mp_astep A c) by (rewrite HA; reflexivity).
+  destruct (mps_bpieces s) as [|p1 rest] eqn:Ebp.
+  - (* the candidate started in this chunk *)
+    destruct (br_nil _ _ _ _ _ _ _ _ _ _ R Ebp) as (Hcs & Hsd & Hdp).
+    assert (HF : mp_slc data sp drp = d ++ eol).
+    { rewrite <- (br_first _ _ _ _ _ _ _ _ _ _ R). rewrite Ebp. cbn [concat app].
+      rewrite (slc_app data sp drp pos) by lia. rewrite firstn_app_le by (rewrite slc_length by lia; lia).
+      symmetry. apply firstn_all2. rewrite slc_length by lia. lia. }
+    assert (HM : mp_slc data drp pos = M).
+    { subst M. rewrite <- (br_rest _ _ _ _ _ _ _ _ _ _ R). rewrite Ebp. cbn [concat app].
+      rewrite (slc_app data sp drp pos) by lia. rewrite skipn_app_le by (rewrite slc_length by lia; lia).
+      replace (skipn (mps_cand s) (mp_slc data sp drp)) with (@nil N) by (symmetry; apply skipn_all2; rewrite slc_length by lia; lia).
+      reflexivity. }
+    destruct (mpl_mode (mps_pl s)) eqn:Em.
+    + rewrite (pa_false_line_nil s Em Ebp). mp_fields.
+      destruct (mpl_mode (mp_hd (mps_pl s) (mp_crb s) false)) eqn:Em1.
+      * (* line mode: the line is complete *)
+        rewrite sub_some by lia. rewrite slice_slc by lia. replace (sp + (drp - sp)) with drp by lia.
+        exists (mk_mp_ast (ma_b A) T (AmData false) true). split; [exact HArel|].
+        assert (Hpl : mp_hd (mp_hd (mps_pl s) (mp_crb s) false) (mp_slc data sp drp) true = P1).
+        { subst P1 X. rewrite HF. unfold mp_crb in *. destruct (mps_cr s) eqn:Ecr; [|reflexivity].
+          apply mp_hd_split_line; [exact Hd0|apply Hcrne; reflexivity]. }
+        destruct (finish_rel s (mp_set_state (mp_shd (mp_set_cr (mp_set_pl s (mp_hd (mps_pl s) (mp_crb s) false)) false) (mp_slc data sp drp) true) MpsData)
+                    A data pos drp drp T HB) as [H1 H2]; mp_fields; try reflexivity; try assumption; try lia.
+        -- apply mp_plwf_hd. apply mp_plwf_hd. exact Hwf.
+        -- rewrite Hpl, HM. reflexivity.
+        -- rewrite HM. destruct M as [|m0 M'] eqn:EM; [left; reflexivity|].
+           change (m0 :: M') with ([] ++ (m0 :: M')). apply nocr_end_app_plain; [discriminate|exact HMplain].
+        -- split; [exact H1|]. split; [exact H2|]. split; [reflexivity|]. split; [reflexivity|]. split; [lia|]. intros i Hi1 Hi2. lia.
+      * (* the set-aside CR created the preamble *)
+        assert (Hnop : mpl_cur (mps_pl s) = None /\ mpl_bcount (mps_pl s) = 0 /\ mps_cr s = true).
+        { unfold mp_crb in Em1. destruct (mps_cr s); [|cbn in Em1; congruence].
+          destruct (mpl_cur (mps_pl s)) as [p|] eqn:Ecur.
+          - rewrite mp_hd_mode_nl in Em1 by congruence. congruence.
+          - unfold mp_hd in Em1. rewrite Ecur in Em1. destruct (mpl_bcount (mps_pl s)) eqn:Ebc; [tauto|].
+            cbn in Em1. discriminate. }
+        destruct Hnop as (Hcur & Hbc & Hcr).
+        exists (mk_mp_ast (ma_b A) T (AmData false) true). split; [exact HArel|].
+        assert (HFL : mp_slc data sp drp = [LF] /\ X = [CR; LF]).
+        { destruct (br_shape _ _ _ _ _ _ _ _ _ _ R) as [(Hc0 & _)|[(Hc0 & _)|[(Hc0 & _)|(_ & -> & ->)]]]; try congruence.
+          subst X. unfold mp_crb. rewrite Hcr, HF. split; reflexivity. }
+        destruct HFL as (HFL & HXL).
+        destruct (finish_rel s (mp_set_state (mp_set_cr (mp_set_pl s (mp_hd (mps_pl s) (mp_crb s) false)) false) MpsData)
+                    A data pos sp drp T HB) as [H1 H2]; mp_fields; try reflexivity; try assumption; try lia.
+        -- apply mp_plwf_hd. exact Hwf.
+        -- rewrite (slc_app data sp drp pos) by lia. rewrite HFL, HM. subst T P1. rewrite HXL.
+           rewrite (mp_hd_line_irrelevant (mps_pl s) [CR; LF]) by (right; tauto).
+           rewrite mp_hd_split_nl by exact Hd0. unfold mp_crb. rewrite Hcr.
+           rewrite mp_hd_split_nl by exact Hd0. reflexivity.
+        -- rewrite (slc_app data sp drp pos) by lia. rewrite HFL, HM.
+           destruct M as [|m0 M'] eqn:EM; [right; cbn; discriminate|]. apply nocr_end_app_plain; [discriminate|exact HMplain].
+        -- split; [exact H1|]. split; [exact H2|]. split; [reflexivity|]. split; [reflexivity|]. split; [lia|].
+           intros i Hi1 Hi2. destruct (slc_elems data drp pos M i HM Hi1 Hi2 ltac:(lia)) as (x & Hx & Hin). exists x. split; [exact Hx|apply HMplain; exact Hin].
+    + (* data mode: go back and rescan *)
+      rewrite (pa_false_data s Em Hd0). mp_fields. rewrite Ebp. cbn [concat]. rewrite app_nil_r.
+      assert (Hcurs : mpl_cur (mps_pl s) <> None) by (intros HH; specialize (Hwf HH); congruence).
+      rewrite mp_hd_mode_nl by exact Hcurs. rewrite Em.
+      exists (mk_mp_ast (ma_b A) T (AmData false) true). split; [exact HArel|].
+      destruct (finish_rel s (mp_set_state (mp_set_bpieces (mp_set_cr (mp_set_pl s (mp_hd (mps_pl s) (mp_crb s) false)) false) []) MpsData)
+                  A data pos sp drp T HB) as [H1 H2]; mp_fields; try reflexivity; try assumption; try lia.
+      * apply mp_plwf_hd. exact Hwf.
+      * rewrite (slc_app data sp drp pos) by lia. rewrite HF, HM. subst T P1.
+        rewrite (mp_hd_line_irrelevant (mps_pl s) X) by (left; tauto).
+        rewrite !mp_hd_split_nl by exact Hd0. subst X. rewrite <- !app_assoc. reflexivity.
+      * rewrite (slc_app data sp drp pos) by lia. rewrite HF, HM.
+        destruct M as [|m0 M'] eqn:EM; [rewrite app_nil_r; eapply nocr_end_shape; apply R|]. apply nocr_end_app_plain; [discriminate|exact HMplain].
+      * split; [exact H1|]. split; [exact H2|]. split; [reflexivity|]. split; [reflexivity|]. split; [lia|].
+        intros i Hi1 Hi2. destruct (slc_elems data drp pos M i HM Hi1 Hi2 ltac:(lia)) as (x & Hx & Hin). exists x. split; [exact Hx|apply HMplain; exact Hin].
+  - (* the candidate is in stored pieces *)
+    destruct (br_cons _ _ _ _ _ _ _ _ _ _ R p1 rest Ebp) as (Hc1 & -> & ->).
+    assert (HF : firstn (mps_cand s) p1 = d ++ eol).
+    { rewrite <- (br_first _ _ _ _ _ _ _ _ _ _ R). rewrite Ebp. cbn [concat]. rewrite <- !app_assoc. rewrite firstn_app_le by lia. reflexivity. }
+    assert (HM : (skipn (mps_cand s) p1 ++ concat rest) ++ mp_slc data 0 pos = M).
+    { subst M. rewrite <- (br_rest _ _ _ _ _ _ _ _ _ _ R). rewrite Ebp. cbn [concat].
+      rewrite skipn_app_le by (rewrite app_length; lia). rewrite skipn_app_le by lia. reflexivity. }
+    assert (Hsuf : forall x, In x (mp_slc data 0 pos) -> mp_plain x).
+    { intros x Hx. apply HMplain. rewrite <- HM. apply in_or_app. right. exact Hx. }
+    assert (Hnocr : mp_nocr_end (mp_slc data 0 pos)).
+    { destruct (mp_slc data 0 pos) as [|m0 M'] eqn:EM; [left; reflexivity|].
+      change (m0 :: M') with ([] ++ (m0 :: M')). apply nocr_end_app_plain; [discriminate|exact Hsuf]. }
+    assert (Hplain : forall p', forall i, p' <= i -> i < pos -> exists x, nth_error data i = Some x /\ mp_plain x).
+    { intros p' i Hi1 Hi2. destruct (slc_elems data 0 pos _ i eq_refl ltac:(lia) Hi2 ltac:(lia)) as (x & Hx & Hin).
+      exists x. split; [exact Hx|apply Hsuf; exact Hin]. }
+    destruct (mpl_mode (mps_pl s)) eqn:Em.
+    + assert (Hd1' : mp_dupb (mp_hd (mps_pl s) (mp_crb s ++ firstn (mps_cand s) p1) true) = false \/ skipn (mps_cand s) p1 ++ concat rest = []).
+      { destruct (skipn (mps_cand s) p1 ++ concat rest) as [|y ys] eqn:EP2; [right; reflexivity|left].
+        rewrite HF. apply Hd1. rewrite <- HM. discriminate. }
+      rewrite (pa_false_line_cons s p1 rest Em Ebp Hc1 Hd0 ltac:(intros HH; rewrite HF; apply Hcrne; exact HH) Hd1').
+      rewrite HF. fold X. fold P1. mp_fields.
+      assert (HT : T = mp_hd (mp_hd P1 (skipn (mps_cand s) p1 ++ concat rest) false) (mp_slc data 0 pos) false).
+      { subst T. rewrite <- HM. destruct (mp_dupb P1) eqn:EdP.
+        - destruct M as [|m0 M'] eqn:EM; [|specialize (Hd1 ltac:(discriminate)); congruence].
+          apply app_eq_nil in HM. destruct HM as [-> ->]. reflexivity.
+        - symmetry. apply mp_hd_split_nl. exact EdP. }
+      destruct (mpl_mode (mp_hd P1 (skipn (mps_cand s) p1 ++ concat rest) false)) eqn:Em1.
+      * cbn [mp_sub Nat.leb Nat.sub]. cbn [mp_slice Nat.add Nat.leb skipn firstn].
+        exists (mk_mp_ast (ma_b A) T (AmData false) true). split; [exact HArel|].
+        destruct (finish_rel s (mp_set_state (mp_shd (mp_set_bpieces (mp_set_cr (mp_set_pl s (mp_hd P1 (skipn (mps_cand s) p1 ++ concat rest) false)) false) []) [] true) MpsData)
+                    A data pos 0 0 T HB) as [H1 H2]; mp_fields; try reflexivity; try assumption; try lia.
+        -- unfold P1. repeat apply mp_plwf_hd. exact Hwf.
+        -- split; [exact H1|]. split; [exact H2|]. split; [reflexivity|]. split; [reflexivity|]. split; [lia|]. intros i Hi1 Hi2. lia.
+      * exists (mk_mp_ast (ma_b A) T (AmData false) true). split; [exact HArel|].
+        destruct (finish_rel s (mp_set_state (mp_set_bpieces (mp_set_cr (mp_set_pl s (mp_hd P1 (skipn (mps_cand s) p1 ++ concat rest) false)) false) []) MpsData)
+                    A data pos 0 0 T HB) as [H1 H2]; mp_fields; try reflexivity; try assumption; try lia.
+        -- unfold P1. repeat apply mp_plwf_hd. exact Hwf.
+        -- split; [exact H1|]. split; [exact H2|]. split; [reflexivity|]. split; [reflexivity|]. split; [lia|]. apply Hplain.
+    + rewrite (pa_false_data s Em Hd0). mp_fields. rewrite Ebp.
+      assert (Hcurs : mpl_cur (mps_pl s) <> None) by (intros HH; specialize (Hwf HH); congruence).
+      rewrite mp_hd_mode_nl by exact Hcurs. rewrite Em.
+      exists (mk_mp_ast (ma_b A) T (AmData false) true). split; [exact HArel|].
+      destruct (finish_rel s (mp_set_state (mp_set_bpieces (mp_set_cr (mp_set_pl s (mp_hd (mps_pl s) (mp_crb s ++ concat (p1 :: rest)) false)) false) []) MpsData)
+                  A data pos 0 0 T HB) as [H1 H2]; mp_fields; try reflexivity; try assumption; try lia.
+      * apply mp_plwf_hd. exact Hwf.
+      * subst T P1. rewrite (mp_hd_line_irrelevant (mps_pl s) X) by (left; tauto).
+        rewrite !mp_hd_split_nl by exact Hd0. rewrite <- HM. subst X. cbn [concat]. rewrite <- (firstn_skipn (mps_cand s) p1) at 2.
+        rewrite HF. rewrite <- !app_assoc. reflexivity.
+      * split; [exact H1|]. split; [exact H2|]. split; [reflexivity|]. split; [reflexivity|]. split; [lia|]. apply Hplain.
+Qed.
+
+Lemma boundary_matched_ret data s p sp drp s' : mp_boundary_matched data s p sp drp = MpRet s' -> length data <= p.
+Proof.
+  unfold mp_boundary_matched. destruct (mp_process_aside s true); try discriminate.
+  destruct (mp_sub drp sp) as [dlen|]; try discriminate.
+  destruct (if 0 <? dlen then _ else _) as [dl1|]; try discriminate.
+  destruct (if 0 <? dl1 then _ else _) as [dl2|]; try discriminate.
+  destruct (mp_slice data sp dl2); try discriminate. cbv zeta.
+  destruct (length data <=? p) eqn:El; try discriminate. intros _. apply Nat.leb_le. exact El.
+Qed.
+
+Lemma boundary_matched_not_break data s p sp drp s' a b c : mp_boundary_matched data s p sp drp <> MpBreak s' a b c.
+Proof.
+  unfold mp_boundary_matched. destruct (mp_process_aside s true); try discriminate.
+  destruct (mp_sub drp sp) as [dlen|]; try discriminate.
+  destruct (if 0 <? dlen then _ else _) as [dl1|]; try discriminate.
+  destruct (if 0 <? dl1 then _ else _) as [dl2|]; try discriminate.
+  destruct (mp_slice data sp dl2); try discriminate. cbv zeta.
+  destruct (length data <=? p); discriminate.
+Qed.
+
+Lemma bnd_loop_sim n : forall data s pos sp drp A,
+  pos + n = length data -> mp_base s A -> mp_rm data s pos sp drp A -> mps_state s = MpsBoundary ->
+  ma_ok (fold_left mp_astep (skipn pos data) A) = true ->
+  match mp_bnd_loop n data s pos sp drp with
+  | MpBreak s' _ _ _ => let A' := fold_left mp_astep (skipn pos data) A in mp_base s' A' /\ mp_rm [] s' 0 0 0 A'
+  | MpRet s' => let A' := fold_left mp_astep (skipn pos data) A in mp_base s' A' /\ mp_rm [] s' 0 0 0 A'
+  | MpGoto s' p' sp' d' =>
+      (mps_state s' = MpsIsLast2 /\ pos < p' /\ p' < length data /\
+         let A' := fold_left mp_astep (mp_slc data pos p') A in mp_base s' A' /\ mp_rm data s' p' sp' d' A')
+      \/
+      (mps_state s' = MpsData /\ mps_cr s' = false /\
+         exists q c Arel, pos <= q /\ nth_error data q = Some c /\ p' <= q /\
+           mp_astep Arel c = mp_astep (fold_left mp_astep (mp_slc data pos q) A) c /\
+           mp_base s' Arel /\ mp_rm data s' q sp' d' Arel /\
+           (forall i, p' <= i -> i < q -> exists x, nth_error data i = Some x /\ mp_plain x))
+  | MpErr => True
+  end.
+Proof.
+  induction n as [|n IH]; intros data s pos sp drp A Hn HB HR Hst Hok;
+    destruct (rm_bnd_inv _ _ _ _ _ _ HR Hst) as (held & k & d & eol & R); cbn [mp_bnd_loop].
+  - (* end of the chunk: keep the rest for later *)
+    pose proof (br_sp _ _ _ _ _ _ _ _ _ _ R) as Hsp.
+    rewrite sub_some by lia. rewrite slice_slc by lia. replace (sp + (length data - sp)) with (length data) by lia.
+    replace (skipn pos data) with (@nil N) by (symmetry; apply skipn_all2; lia). cbn [fold_left].
+    assert (pos = length data) by lia. subst pos.
+    split.
+    + destruct HB as [H1 H2 H3 H4]. split; mp_fields; assumption.
+    + apply RmBnd with (held := held) (k := k) (d := d) (eol := eol); mp_fields; try assumption; try (apply R); try lia.
+      * rewrite concat_app. cbn [concat]. rewrite slc_nil, !app_nil_r. apply R.
+      * rewrite concat_app. cbn [concat]. rewrite slc_nil, !app_nil_r. apply R.
+      * intros HH. destruct (mps_bpieces s); discriminate HH.
+      * intros p1 r HH. split; [|split; reflexivity].
+        destruct (mps_bpieces s) as [|q1 qr] eqn:Ebp.
+        -- cbn in HH. injection HH as <- _. destruct (br_nil _ _ _ _ _ _ _ _ _ _ R Ebp) as (Ha & Hb & Hc).
+           rewrite slc_length by lia. lia.
+        -- cbn in HH. injection HH as <- _. apply (br_cons _ _ _ _ _ _ _ _ _ _ R q1 qr Ebp).
+  - destruct (nth_error data pos) as [c|] eqn:Ec; unfold mp_rd at 1; rewrite Ec; [|exact I].
+    assert (Hlt : pos < length data) by (apply nth_error_Some; congruence).
+    rewrite (br_k _ _ _ _ _ _ _ _ _ _ R). rewrite rd_boundary by (apply R).
+    rewrite (skipn_cons_nth data pos c Ec) in Hok |- *. cbn [fold_left] in Hok |- *.
+    assert (Hok1 : ma_ok (mp_astep A c) = true) by (eapply afold_ok; exact Hok).
+    destruct (c =? nth k (mps_boundary s) 0)%N eqn:Ecmp; cbn [negb].
+    + apply N.eqb_eq in Ecmp. cbn [mps_mpos mp_set_mpos mps_boundary].
+      destruct (S k =? length (mps_boundary s)) eqn:Ek.
+      * (* the delimiter is complete *)
+        apply Nat.eqb_eq in Ek.
+        pose proof (bnd_matched_sim data s pos sp drp A held k d eol c HB R Hst Ec Ecmp Ek Hok1) as HM.
+        destruct (mp_boundary_matched data (mp_set_mpos s (S k)) (pos + 1) sp drp) as [s' p' sp' d'|s' p' sp' d'|s'|] eqn:EM;
+          [|exfalso; exact (boundary_matched_not_break _ _ _ _ _ _ _ _ _ EM)| |exact I].
+        -- destruct HM as (H1 & H2 & -> & H4 & H5). left. split; [exact H4|]. split; [lia|]. split; [lia|].
+           rewrite (slc_cons_nth data pos (pos + 1) c Ec) by lia. rewrite slc_nil. cbn [fold_left]. tauto.
+        -- (* the chunk ends with the delimiter *)
+           assert (Hend : skipn (pos + 1) data = []) by (apply skipn_all2; apply (boundary_matched_ret _ _ _ _ _ _ EM)).
+           rewrite Hend. cbn [fold_left]. exact HM.
+      * (* one more byte of the delimiter *)
+        apply Nat.eqb_neq in Ek.
+        assert (HA1 : mp_astep A c = mk_mp_ast (ma_b A) (ma_pl A) (AmBnd held (S k)) (ma_ok A)).
+        { unfold mp_astep. rewrite (br_m _ _ _ _ _ _ _ _ _ _ R). cbv zeta. destruct HB as [Hb _ _ _]. rewrite Hb, nth_boundary by (apply R).
+          rewrite <- Ecmp, N.eqb_refl. destruct (S k =? length (mps_boundary s)) eqn:E; [apply Nat.eqb_eq in E; congruence|]. reflexivity. }
+        pose proof (bndrel_cand_le _ _ _ _ _ _ _ _ _ _ R) as Hcl.
+        assert (HR1 : mp_rm data (mp_set_mpos s (S k)) (pos + 1) sp drp (mp_astep A c)).
+        { rewrite HA1. apply RmBnd with (held := held) (k := S k) (d := d) (eol := eol); mp_fields; try assumption; try reflexivity; try (apply R); try lia.
+          - pose proof (br_k2 _ _ _ _ _ _ _ _ _ _ R). lia.
+          - pose proof (br_kl _ _ _ _ _ _ _ _ _ _ R). lia.
+          - rewrite (slc_snoc data sp pos c) by (try (apply R); exact Ec). rewrite app_assoc. rewrite firstn_app_le by exact Hcl. apply R.
+          - rewrite (slc_snoc data sp pos c) by (try (apply R); exact Ec). rewrite app_assoc. rewrite skipn_app_le by exact Hcl.
+            rewrite (br_rest _ _ _ _ _ _ _ _ _ _ R). rewrite matched_S by (apply R). rewrite Ecmp. reflexivity.
+          - pose proof (br_sp _ _ _ _ _ _ _ _ _ _ R). lia.
+          - intros HH. destruct (br_nil _ _ _ _ _ _ _ _ _ _ R HH) as (Ha & Hb & Hc). lia. }
+        assert (HB1 : mp_base (mp_set_mpos s (S k)) (mp_astep A c)).
+        { rewrite HA1. destruct HB as [H1 H2 H3 H4]. split; mp_fields; assumption. }
+        specialize (IH data (mp_set_mpos s (S k)) (pos + 1) sp drp (mp_astep A c) ltac:(lia) HB1 HR1 Hst Hok).
+        destruct (mp_bnd_loop n data (mp_set_mpos s (S k)) (pos + 1) sp drp) as [s' p' sp' d'|s' p' sp' d'|s'|]; try exact IH.
+        destruct IH as [(H1 & H2 & H3 & H4)|(H1 & H2 & q & c' & Arel & Hq1 & Hq2 & Hq3 & Hq4 & Hq5)].
+        -- left. split; [exact H1|]. split; [lia|]. split; [lia|]. rewrite (slc_cons_nth data pos p' c Ec) by lia. exact H4.
+        -- right. split; [exact H1|]. split; [exact H2|]. exists q, c', Arel. split; [lia|]. split; [exact Hq2|]. split; [exact Hq3|].
+           rewrite (slc_cons_nth data pos q c Ec) by lia. cbn [fold_left]. split; [exact Hq4|exact Hq5].
+    + (* mismatch *)
+      assert (Hne : c <> nth k (mps_boundary s) 0%N) by (apply N.eqb_neq; exact Ecmp).
+      pose proof (bnd_mismatch_sim data s pos sp drp A held k d eol c HB R Hst Ec Hne Hok1) as HM.
+      destruct (mp_process_aside s false) as [s1| |]; try exact I.
+      destruct (mpl_mode (mps_pl s1)).
+      * destruct (mp_sub drp sp) as [k0|]; [|exact I]. destruct (mp_slice data sp k0) as [dd|]; [|exact I].
+        destruct HM as (Arel & H1 & H2 & H3 & H4 & H5 & H6 & H7).
+        right. split; [exact H5|]. split; [exact H4|]. exists pos, c, Arel. split; [lia|]. split; [exact Ec|]. split; [exact H6|].
+        rewrite slc_nil. cbn [fold_left]. tauto.
+      * destruct HM as (Arel & H1 & H2 & H3 & H4 & H5 & H6 & H7).
+        right. split; [exact H5|]. split; [exact H4|]. exists pos, c, Arel. split; [lia|]. split; [exact Ec|]. split; [exact H6|].
+        rewrite slc_nil. cbn [fold_left]. tauto.
+Qed.
+
+(* ------------------------------------------------------------------ the single-byte states *)
+Lemma rm_single_inv data s pos sp drp A :
+  mp_rm data s pos sp drp A -> mp_is_single (mps_state s) ->
+  mp_single_corr (mps_state s) (ma_m A) /\ mps_bpieces s = [] /\ mps_cr s = false /\ ma_pl A = mps_pl s /\ sp <= pos /\ pos <= length data.
+Proof.
+  intros [crp reg H1|held k d eol H1|H1 H2 H3 H4 H5 H6] Hs.
+  - destruct Hs as [HH|[HH|[HH|HH]]]; congruence.
+  - destruct Hs as [HH|[HH|[HH|HH]]]; congruence.
+  - tauto.
+Qed.
+
+Lemma single_sim data s pos sp drp A c :
+  mp_base s A -> mp_rm data s pos sp drp A -> mp_is_single (mps_state s) -> nth_error data pos = Some c ->
+  match mp_single data s pos sp drp with
+  | MpBreak s' p' sp' d' =>
+      exists A1, ((p' = pos /\ mp_astep A1 c = mp_astep A c) \/ (p' = pos + 1 /\ A1 = mp_astep A c)) /\
+        mp_base s' A1 /\ mp_rm data s' p' sp' d' A1 /\ mps_cr s' = false /\
+        (mps_state s' <> MpsBoundary /\ (mps_state s' = MpsData -> sp' = p'))
+  | MpErr => True
+  | _ => False
+  end.
+Proof.
+  intros HB HR Hs Ec.
+  destruct (rm_single_inv _ _ _ _ _ _ HR Hs) as (Hcorr & Hbp & Hcr & Hpl & Hsp & Hpos).
+  assert (Hlt : pos < length data) by (apply nth_error_Some; congruence).
+  destruct HB as [Hb Hf Hwf Hbok].
+  unfold mp_single, mp_rd. rewrite Ec.
+  destruct A as [ab apl am aok]. cbn [ma_b ma_pl ma_m ma_ok] in *. subst apl.
+  destruct (mps_state s) eqn:Est; destruct am; try contradiction; clear Hcorr.
+  - (* IS_LAST1 *)
+    destruct (c =? mp_DASH)%N eqn:E.
+    + exists (mp_astep (mk_mp_ast ab (mps_pl s) AmIsLast1 aok) c). split; [right; split; reflexivity|].
+      unfold mp_astep. cbn [ma_m ma_b ma_pl ma_ok]. rewrite E.
+      split; [split; mp_fields; assumption|]. split; [|split; [exact Hcr|mp_fields; split; [discriminate|intros HH; try discriminate HH; reflexivity]]].
+      apply RmSingle; mp_fields; try assumption; try reflexivity; try lia; exact I.
+    + exists (mk_mp_ast ab (mp_pl_flag (mps_pl s) c_mp_BBOUNDARY_NLWS_AFTER) AmEatLws aok). split; [left; split; [reflexivity|]|].
+      * unfold mp_astep. cbn [ma_m ma_b ma_pl ma_ok]. rewrite E. reflexivity.
+      * split; [split; mp_fields; assumption|]. split; [|split; [exact Hcr|mp_fields; split; [discriminate|intros HH; try discriminate HH; reflexivity]]].
+        apply RmSingle; mp_fields; try assumption; try reflexivity; try lia; exact I.
+  - (* IS_LAST2 *)
+    destruct (c =? mp_DASH)%N eqn:E.
+    + exists (mp_astep (mk_mp_ast ab (mps_pl s) AmIsLast2 aok) c). split; [right; split; reflexivity|].
+      unfold mp_astep. cbn [ma_m ma_b ma_pl ma_ok]. rewrite E.
+      split; [split; mp_fields; assumption|]. split; [|split; [exact Hcr|mp_fields; split; [discriminate|intros HH; try discriminate HH; reflexivity]]].
+      apply RmSingle; mp_fields; try assumption; try reflexivity; try lia; exact I.
+    + exists (mk_mp_ast ab (mps_pl s) AmEatLws aok). split; [left; split; [reflexivity|]|].
+      * unfold mp_astep. cbn [ma_m ma_b ma_pl ma_ok]. rewrite E. reflexivity.
+      * split; [split; mp_fields; assumption|]. split; [|split; [exact Hcr|mp_fields; split; [discriminate|intros HH; try discriminate HH; reflexivity]]].
+        apply RmSingle; mp_fields; try assumption; try reflexivity; try lia; exact I.
+  - (* EAT_LWS *)
+    destruct (c =? CR)%N eqn:E1; [|destruct (c =? LF)%N eqn:E2; [|destruct (htp_is_lws c) eqn:E3]];
+      (exists (mp_astep (mk_mp_ast ab (mps_pl s) AmEatLws aok) c); split; [right; split; reflexivity|];
+       unfold mp_astep; cbn [ma_m ma_b ma_pl ma_ok]; rewrite ?E1, ?E2, ?E3;
+       split; [split; mp_fields; assumption|]; split; [|split; [exact Hcr|mp_fields; rewrite ?Est; split; [discriminate|intros HH; try discriminate HH; reflexivity]]]).
+    + apply RmSingle; mp_fields; try assumption; try reflexivity; try lia; exact I.
+    + apply RmData with (crp := false) (reg := []); mp_fields; try assumption; try reflexivity; try lia.
+      right. split; [exact Hcr|]. split; [rewrite slc_nil; reflexivity|]. split; [intros _; left; reflexivity|discriminate].
+    + apply RmSingle; mp_fields; try assumption; try reflexivity; try lia; rewrite Est; exact I.
+    + apply RmSingle; mp_fields; try assumption; try reflexivity; try lia; rewrite Est; exact I.
+  - (* EAT_LWS_CR *)
+    destruct (c =? LF)%N eqn:E.
+    + exists (mp_astep (mk_mp_ast ab (mps_pl s) AmEatLwsCr aok) c). split; [right; split; reflexivity|].
+      unfold mp_astep. cbn [ma_m ma_b ma_pl ma_ok]. rewrite E.
+      split; [split; mp_fields; assumption|]. split; [|split; [exact Hcr|mp_fields; split; [discriminate|intros HH; try discriminate HH; reflexivity]]].
+      apply RmData with (crp := false) (reg := []); mp_fields; try assumption; try reflexivity; try lia.
+      right. split; [exact Hcr|]. split; [rewrite slc_nil; reflexivity|]. split; [intros _; left; reflexivity|discriminate].
+    + exists (mk_mp_ast ab (mp_pl_flag (mps_pl s) c_mp_BBOUNDARY_NLWS_AFTER) AmEatLws aok). split; [left; split; [reflexivity|]|].
+      * unfold mp_astep. cbn [ma_m ma_b ma_pl ma_ok]. rewrite E. reflexivity.
+      * split; [split; mp_fields; assumption|]. split; [|split; [exact Hcr|mp_fields; split; [discriminate|intros HH; try discriminate HH; reflexivity]]].
+        apply RmSingle; mp_fields; try assumption; try reflexivity; try lia; exact I.
+Qed.
+
+(* ------------------------------------------------------------------ the switch *)
+Lemma data_loop_break_pos n : forall data s pos sp drp,
+  match mp_data_loop n data s pos sp drp with MpBreak _ p' _ _ => p' = pos + n | _ => True end.
+Proof.
+  induction n as [|n IH]; intros data s pos sp drp; cbn [mp_data_loop].
+  - destruct (mp_sub pos sp); [|exact I]. destruct (mp_sub _ _); [|exact I]. destruct (mp_slice _ _ _); [lia|exact I].
+  - unfold mp_rd. destruct (nth_error data pos) as [c|]; [|exact I].
+    destruct (c =? CR)%N.
+    + destruct (pos + 1 =? length data).
+      * specialize (IH data (mp_set_cr s true) (pos + 1) sp drp). destruct (mp_data_loop _ _ _ _ _ _); try exact I. lia.
+      * destruct (nth_error data (pos + 1)); [|exact I]. destruct (n0 =? LF)%N.
+        -- destruct (mp_sub _ _); exact I.
+        -- specialize (IH data (mp_set_cr s false) (pos + 1) sp drp). destruct (mp_data_loop _ _ _ _ _ _); try exact I. lia.
+    + destruct (c =? LF)%N.
+      * destruct (mp_sub _ _); exact I.
+      * match goal with |- match mp_data_loop n data ?s1 _ _ _ with _ => _ end => specialize (IH data s1 (pos + 1) sp drp) end.
+        destruct (mp_data_loop _ _ _ _ _ _); try exact I. lia.
+Qed.
+
+Lemma bnd_loop_break_pos n : forall data s pos sp drp,
+  match mp_bnd_loop n data s pos sp drp with MpBreak _ p' _ _ => p' = pos + n | _ => True end.
+Proof.
+  induction n as [|n IH]; intros data s pos sp drp; cbn [mp_bnd_loop].
+  - destruct (mp_sub _ _); [|exact I]. destruct (mp_slice _ _ _); [lia|exact I].
+  - destruct (mp_rd data pos); [|exact I]. destruct (mp_rd _ _); [|exact I].
+    destruct (negb _).
+    + destruct (mp_process_aside s false); try exact I. destruct (mpl_mode _).
+      * destruct (mp_sub _ _); [|exact I]. destruct (mp_slice _ _ _); exact I.
+      * exact I.
+    + destruct (_ =? _).
+      * match goal with |- match ?x with _ => _ end => destruct x eqn:E end; try exact I.
+        exfalso. exact (boundary_matched_not_break _ _ _ _ _ _ _ _ _ E).
+      * specialize (IH data (mp_set_mpos s (S (mps_mpos s))) (pos + 1) sp drp). destruct (mp_bnd_loop _ _ _ _ _ _); try exact I. lia.
+Qed.
+
+Lemma switch_skip fuel data s p q sp drp :
+  mps_state s = MpsData -> mps_cr s = false -> p <= q -> q <= length data ->
+  (forall i, p <= i -> i < q -> exists x, nth_error data i = Some x /\ mp_plain x) ->
+  mp_switch fuel data s p sp drp = mp_switch fuel data s q sp drp.
+Proof.
+  intros Hst Hcr Hpq Hq Hall. destruct fuel as [|f]; [reflexivity|]. cbn [mp_switch]. rewrite Hst.
+  replace (length data - p) with ((q - p) + (length data - q)) by lia.
+  rewrite (data_loop_skip (q - p) (length data - q) data s p sp drp Hcr).
+  - replace (p + (q - p)) with q by lia. reflexivity.
+  - intros i H1 H2. apply Hall; lia.
+Qed.
+
+Lemma skipn_slc_app (data : bytes) a b : a <= b -> b <= length data -> skipn a data = mp_slc data a b ++ skipn b data.
+Proof.
+  intros H1 H2. unfold mp_slc. rewrite <- (firstn_skipn (b - a) (skipn a data)) at 1. f_equal.
+  rewrite skipn_skipn'. f_equal. lia.
+Qed.
+
+Lemma rm_data_end data s p d A :
+  mp_rm data s p p d A -> mps_state s = MpsData -> mps_cr s = false -> mp_rm [] s 0 0 0 A.
+Proof.
+  intros HR Hst Hcr. destruct (rm_data_inv _ _ _ _ _ _ HR Hst) as (crp & reg & Hbp & Hm & Hpl & Hsp & Hpl' & Hfl).
+  destruct Hfl as [(Hc & _)|(_ & Hslc & Hnc & Hnx)]; [congruence|].
+  rewrite slc_nil in Hslc. symmetry in Hslc. apply app_eq_nil in Hslc. destruct Hslc as [-> Hc].
+  assert (crp = false) by (destruct crp; [discriminate|reflexivity]). subst crp.
+  apply RmData with (crp := false) (reg := []); try assumption; cbn; try lia.
+  right. split; [exact Hcr|]. split; [reflexivity|]. split; [intros _; left; reflexivity|discriminate].
+Qed.
+
+Lemma data_loop_goto_state n : forall data s pos sp drp,
+  match mp_data_loop n data s pos sp drp with MpGoto s' _ _ _ => mps_state s' = MpsBoundary | _ => True end.
+Proof.
+  induction n as [|n IH]; intros data s pos sp drp; cbn [mp_data_loop].
+  - destruct (mp_sub pos sp); [|exact I]. destruct (mp_sub _ _); [|exact I]. destruct (mp_slice _ _ _); exact I.
+  - unfold mp_rd. destruct (nth_error data pos) as [c|]; [|exact I].
+    destruct (c =? CR)%N.
+    + destruct (pos + 1 =? length data); [apply IH|].
+      destruct (nth_error data (pos + 1)); [|exact I]. destruct (n0 =? LF)%N; [|apply IH].
+      destruct (mp_sub _ _); [reflexivity|exact I].
+    + destruct (c =? LF)%N; [|apply IH]. destruct (mp_sub _ _); [reflexivity|exact I].
+Qed.
+
+Lemma data_loop_not_ret n : forall data s pos sp drp,
+  match mp_data_loop n data s pos sp drp with MpRet _ => False | _ => True end.
+Proof.
+  induction n as [|n IH]; intros data s pos sp drp; cbn [mp_data_loop].
+  - destruct (mp_sub pos sp); [|exact I]. destruct (mp_sub _ _); [|exact I]. destruct (mp_slice _ _ _); exact I.
+  - unfold mp_rd. destruct (nth_error data pos) as [c|]; [|exact I].
+    destruct (c =? CR)%N.
+    + destruct (pos + 1 =? length data); [apply IH|].
+      destruct (nth_error data (pos + 1)); [|exact I]. destruct (n0 =? LF)%N; [|apply IH].
+      destruct (mp_sub _ _); exact I.
+    + destruct (c =? LF)%N; [|apply IH]. destruct (mp_sub _ _); exact I.
+Qed.
+
+Lemma fold_skipn_step (data : bytes) pos c A : nth_error data pos = Some c ->
+  fold_left mp_astep (skipn pos data) A = fold_left mp_astep (skipn (pos + 1) data) (mp_astep A c).
+Proof. intros H. rewrite (skipn_cons_nth data pos c H). reflexivity. Qed.
+
+Lemma switch_sim fuel : forall data s pos sp drp A s',
+  mp_base s A -> mp_rm data s pos sp drp A ->
+  (mps_state s = MpsData -> mps_cr s = true -> nth_error data pos <> Some CR) ->
+  (mp_is_single (mps_state s) -> pos < length data) ->
+  ma_ok (fold_left mp_astep (skipn pos data) A) = true ->
+  mp_switch fuel data s pos sp drp = MpOk s' ->
+  let A' := fold_left mp_astep (skipn pos data) A in mp_base s' A' /\ mp_rm [] s' 0 0 0 A'.
+Proof.
+  induction fuel as [|fuel IH]; intros data s pos sp drp A s' HB HR Hhz Hsg Hok Hrun; [discriminate|].
+  cbn [mp_switch] in Hrun. cbv zeta.
+  assert (Hposle : pos <= length data).
+  { destruct HR as [crp reg H1 H2 H3 H4 H5 H6|held k d eol H1 H2 H3 H4 H5 H6 H7 H8 H9 H10 H11 H12 H13|H1 H2 H3 H4 H5 H6]; assumption. }
+  assert (Hsingle : mp_is_single (mps_state s) ->
+            match mp_single data s pos sp drp with
+            | MpErr => MpFault | MpRet s'0 => MpOk s'0
+            | MpGoto s'0 p' sp' d' => mp_switch fuel data s'0 p' sp' d'
+            | MpBreak s'0 p' sp' d' => if p' <? length data then mp_switch fuel data s'0 p' sp' d' else MpOk s'0
+            end = MpOk s' ->
+            mp_base s' (fold_left mp_astep (skipn pos data) A) /\ mp_rm [] s' 0 0 0 (fold_left mp_astep (skipn pos data) A)).
+  { intros Hs Hrun'. specialize (Hsg Hs).
+    destruct (nth_error data pos) as [c|] eqn:Ec; [|apply nth_error_None in Ec; lia].
+    pose proof (single_sim data s pos sp drp A c HB HR Hs Ec) as HS.
+    destruct (mp_single data s pos sp drp) as [s1 p1 sp1 d1|s1 p1 sp1 d1|s1|]; try contradiction; try discriminate.
+    destruct HS as (A1 & Hcase & HB1 & HR1 & Hcr1 & Hnb1 & Hsp1).
+    assert (Hfold : fold_left mp_astep (skipn pos data) A = fold_left mp_astep (skipn p1 data) A1).
+    { destruct Hcase as [(-> & Heq)|(-> & ->)].
+      - rewrite !(fold_skipn_step data pos c) by exact Ec. rewrite Heq. reflexivity.
+      - apply fold_skipn_step. exact Ec. }
+    rewrite Hfold in Hok |- *.
+    destruct (p1 <? length data) eqn:El.
+    - apply Nat.ltb_lt in El. apply (IH data s1 p1 sp1 d1 A1 s' HB1 HR1); try assumption.
+      + intros _ HH. congruence.
+      + intros _. exact El.
+    - apply Nat.ltb_ge in El. injection Hrun' as <-.
+      assert (Hp1 : p1 = length data) by (destruct Hcase as [(-> & _)|(-> & _)]; lia).
+      replace (skipn p1 data) with (@nil N) by (symmetry; apply skipn_all2; lia). cbn [fold_left].
+      split; [exact HB1|].
+      destruct (mps_state s1) eqn:Est1.
+      + exfalso. destruct HR1 as [crp reg H1|held k d eol H1|H1]; try congruence. rewrite Est1 in H1. destruct (ma_m A1); contradiction.
+      + rewrite (Hsp1 eq_refl) in HR1. apply (rm_data_end data s1 p1 d1 A1 HR1 Est1 Hcr1).
+      + congruence.
+      + apply (rm_single_any data [] s1 p1 sp1 d1 0 0 0 A1 HR1); [rewrite Est1; unfold mp_is_single; tauto|lia|cbn; lia].
+      + apply (rm_single_any data [] s1 p1 sp1 d1 0 0 0 A1 HR1); [rewrite Est1; unfold mp_is_single; tauto|lia|cbn; lia].
+      + apply (rm_single_any data [] s1 p1 sp1 d1 0 0 0 A1 HR1); [rewrite Est1; unfold mp_is_single; tauto|lia|cbn; lia].
+      + apply (rm_single_any data [] s1 p1 sp1 d1 0 0 0 A1 HR1); [rewrite Est1; unfold mp_is_single; tauto|lia|cbn; lia]. }
+  destruct (mps_state s) eqn:Est.
+  - (* STATE_INIT is not related to anything *)
+    exfalso. destruct HR as [crp reg H1|held k d eol H1|H1]; try congruence. rewrite Est in H1. destruct (ma_m A); contradiction.
+  - (* STATE_DATA *)
+    pose proof (data_loop_sim (length data - pos) data s pos sp drp A ltac:(lia) HB HR Est (Hhz eq_refl) Hok) as HD.
+    pose proof (data_loop_break_pos (length data - pos) data s pos sp drp) as HP.
+    pose proof (data_loop_pos (length data - pos) data s pos sp drp) as HQ.
+    pose proof (data_loop_goto_state (length data - pos) data s pos sp drp) as HG.
+    pose proof (data_loop_not_ret (length data - pos) data s pos sp drp) as HN.
+    destruct (mp_data_loop (length data - pos) data s pos sp drp) as [s1 p1 sp1 d1|s1 p1 sp1 d1|s1|]; try discriminate; try contradiction.
+    + destruct HD as [HB1 HR1]. destruct HQ as [Hq1 Hq2].
+      rewrite (skipn_slc_app data pos p1) in Hok |- * by lia. rewrite fold_left_app in Hok |- *.
+      apply (IH data s1 p1 sp1 d1 _ s' HB1 HR1); try assumption.
+      * intros HH. congruence.
+      * intros [HH|[HH|[HH|HH]]]; congruence.
+    + replace p1 with (length data) in Hrun by lia. rewrite Nat.ltb_irrefl in Hrun. injection Hrun as <-. exact HD.
+  - (* STATE_BOUNDARY *)
+    pose proof (bnd_loop_sim (length data - pos) data s pos sp drp A ltac:(lia) HB HR Est Hok) as HD.
+    pose proof (bnd_loop_break_pos (length data - pos) data s pos sp drp) as HP.
+    destruct (mp_bnd_loop (length data - pos) data s pos sp drp) as [s1 p1 sp1 d1|s1 p1 sp1 d1|s1|]; try discriminate.
+    + destruct HD as [(Hst1 & Hq1 & Hq2 & HB1 & HR1)|(Hst1 & Hcr1 & q & c & Arel & Hq1 & Hq2 & Hq3 & Hq4 & HB1 & HR1 & Hpl)].
+      * rewrite (skipn_slc_app data pos p1) in Hok |- * by lia. rewrite fold_left_app in Hok |- *.
+        apply (IH data s1 p1 sp1 d1 _ s' HB1 HR1); try assumption.
+        -- intros HH. congruence.
+        -- intros _. exact Hq2.
+      * assert (Hql : q < length data) by (apply nth_error_Some; congruence).
+        rewrite (switch_skip fuel data s1 p1 q sp1 d1 Hst1 Hcr1 Hq3 ltac:(lia) Hpl) in Hrun.
+        assert (Hfold : fold_left mp_astep (skipn pos data) A = fold_left mp_astep (skipn q data) Arel).
+        { rewrite (skipn_slc_app data pos q) by lia. rewrite fold_left_app.
+          rewrite !(fold_skipn_step data q c) by exact Hq2. rewrite Hq4. reflexivity. }
+        rewrite Hfold in Hok |- *.
+        apply (IH data s1 q sp1 d1 Arel s' HB1 HR1); try assumption.
+        -- intros _ HH. congruence.
+        -- intros [HH|[HH|[HH|HH]]]; congruence.
+    + replace p1 with (length data) in Hrun by lia. rewrite Nat.ltb_irrefl in Hrun. injection Hrun as <-. exact HD.
+    + injection Hrun as <-. exact HD.
+  - apply Hsingle; [unfold mp_is_single; tauto|exact Hrun].
+  - apply Hsingle; [unfold mp_is_single; tauto|exact Hrun].
+  - apply Hsingle; [unfold mp_is_single; tauto|exact Hrun].
+  - apply Hsingle; [unfold mp_is_single; tauto|exact Hrun].
+Qed.
+
+(* ------------------------------------------------------------------ one call *)
+Definition mp_R (s : mp_state) (A : mp_ast) : Prop := mp_base s A /\ mp_rm [] s 0 0 0 A.
+
+Lemma slc_empty a b : mp_slc [] a b = [].
+Proof. unfold mp_slc. rewrite skipn_nil. apply firstn_nil. Qed.
+
+Lemma rm_rebase data s A : mp_rm [] s 0 0 0 A -> mp_rm data s 0 0 0 A.
+Proof.
+  intros [crp reg H1 H2 H3 H4 H5 H6 H7|held k d eol H1 H2 H3 H4 H5 H6 H7 H8 H9 H10 H11 H12 H13 H14 H15|H1 H2 H3 H4 H5 H6].
+  - apply RmData with (crp := crp) (reg := reg); try assumption; try lia.
+    destruct H7 as [H7|(Ha & Hb & Hc & Hd)]; [left; exact H7|right].
+    rewrite slc_nil in Hb |- *. split; [exact Ha|]. split; [exact Hb|]. split; [exact Hc|].
+    intros ->. symmetry in Hb. apply app_eq_nil in Hb. destruct Hb as [_ Hb]. discriminate Hb.
+  - apply RmBnd with (held := held) (k := k) (d := d) (eol := eol); try assumption; try lia; rewrite slc_nil in *; assumption.
+  - apply RmSingle; try assumption; lia.
+Qed.
+
+Lemma parse_sim s A chunk s' :
+  mp_R s A -> mp_cr_hazard_at s chunk = false -> ma_ok (fold_left mp_astep chunk A) = true ->
+  mp_parse_r s chunk = MpOk s' -> mp_R s' (fold_left mp_astep chunk A).
+Proof.
+  intros [HB HR] Hhz Hok Hrun. unfold mp_parse_r in Hrun.
+  destruct (0 <? length chunk) eqn:El.
+  - apply Nat.ltb_lt in El.
+    pose proof (switch_sim (4 * length chunk + 4) chunk s 0 0 0 A s' HB (rm_rebase chunk s A HR)) as H.
+    cbn [skipn] in H. apply H; try assumption.
+    + intros Hst Hcr Hc. unfold mp_cr_hazard_at in Hhz. rewrite Hcr, Hst in Hhz. destruct chunk as [|c0 r]; [discriminate|].
+      cbn in Hc, Hhz. injection Hc as ->. discriminate.
+    + intros _. exact El.
+  - injection Hrun as <-. destruct chunk; [|cbn in El; discriminate]. split; assumption.
+Qed.
+
+(* ------------------------------------------------------------------ finalize *)
+Lemma strip_eol_shape cr d eol : mp_eolshape cr d eol -> mp_strip_eol (d ++ eol) = d.
+Proof.
+  intros [(_ & -> & ->)|[(_ & -> & Hn)|[(_ & ->)|(_ & -> & ->)]]]; unfold mp_strip_eol.
+  - reflexivity.
+  - rewrite rev_app_distr. cbn [rev app]. change (LF =? LF)%N with true. cbv iota.
+    destruct (rev d) as [|c2 r2] eqn:Er.
+    + apply (f_equal (@rev N)) in Er. rewrite rev_involutive in Er. exact (eq_sym Er).
+    + assert (Hd : d = rev r2 ++ [c2]) by (apply (f_equal (@rev N)) in Er; rewrite rev_involutive in Er; exact Er).
+      assert (c2 <> CR) by (subst d; eapply nocr_last; exact Hn).
+      destruct (c2 =? CR)%N eqn:E; [apply N.eqb_eq in E; congruence|]. rewrite <- Er. apply rev_involutive.
+  - rewrite rev_app_distr. cbn [rev app]. change (LF =? LF)%N with true. change (CR =? CR)%N with true. cbv iota. apply rev_involutive.
+  - reflexivity.
+Qed.
+
+Lemma release_core s A data pos sp drp held k d eol :
+  mp_base s A -> mp_bndrel data s pos sp drp A held k d eol ->
+  snd (mp_arelease (ma_b A) (ma_pl A) (ma_ok A) held k) = true ->
+  let X := mp_crb s ++ d ++ eol in
+  let P1 := mp_hd (mps_pl s) X true in
+  fst (mp_arelease (ma_b A) (ma_pl A) (ma_ok A) held k) = mp_hd P1 (mp_matched (mps_boundary s) k) false /\
+  mp_dupb (mps_pl s) = false /\ (mp_matched (mps_boundary s) k <> [] -> mp_dupb P1 = false).
+Proof.
+  intros HB R Hok X P1. destruct HB as [Hb Hf Hwf Hbok].
+  destruct (shape_X s d eol held (br_held _ _ _ _ _ _ _ _ _ _ R) (br_shape _ _ _ _ _ _ _ _ _ _ R)) as (HX & Hnil & _).
+  unfold mp_arelease in *.
+  destruct (mp_ahd (ma_pl A) (ma_ok A) held true) as [pla oka] eqn:Ea.
+  destruct (mp_ahd pla oka (mp_matched (ma_b A) k) false) as [plb okb] eqn:Eb.
+  cbn [fst snd] in *. subst okb.
+  pose proof (ahd_ok pla oka (mp_matched (ma_b A) k) false) as Hb2. rewrite Eb in Hb2. destruct (Hb2 eq_refl) as [-> Hd2].
+  pose proof (ahd_ok (ma_pl A) (ma_ok A) held true) as Ha2. rewrite Ea in Ha2. destruct (Ha2 eq_refl) as [_ Hd1].
+  unfold mp_ahd in Ea, Eb. injection Ea as <- _. injection Eb as <- _.
+  assert (Hd0 : mp_dupb (mps_pl s) = false).
+  { destruct Hd1 as [Hd1|Hd1].
+    - apply (br_init _ _ _ _ _ _ _ _ _ _ R). apply Hnil. exact Hd1.
+    - rewrite (br_pl _ _ _ _ _ _ _ _ _ _ R) in Hd1. destruct (mp_dupb (mps_pl s)) eqn:E; [|reflexivity].
+      rewrite (mp_dupb_hd _ d E) in Hd1. discriminate. }
+  assert (HP1 : mp_hd (ma_pl A) held true = P1).
+  { rewrite (br_pl _ _ _ _ _ _ _ _ _ _ R). subst P1 X. rewrite <- HX.
+    destruct held as [|h0 held'].
+    - rewrite app_nil_r. destruct (Hnil eq_refl) as [-> HX0]. rewrite app_nil_r in HX.
+      assert (d = []) by (destruct (br_shape _ _ _ _ _ _ _ _ _ _ R) as [(_ & _ & ->)|[(_ & H & _)|[(_ & H)|(_ & H & _)]]]; try discriminate H; reflexivity).
+      subst d. reflexivity.
+    - apply mp_hd_split_line; [exact Hd0|discriminate]. }
+  rewrite HP1, Hb. split; [reflexivity|]. split; [exact Hd0|].
+  intros Hne. destruct Hd2 as [Hd2|Hd2]; [rewrite Hb in Hd2; congruence|]. rewrite HP1 in Hd2. exact Hd2.
+Qed.
+
+(* process_aside at the end of input hands over exactly what the reference releases *)
+Lemma pa_false_T s A held k d eol :
+  mp_base s A -> mp_bndrel [] s 0 0 0 A held k d eol ->
+  mp_dupb (mps_pl s) = false ->
+  (mp_matched (mps_boundary s) k <> [] -> mp_dupb (mp_hd (mps_pl s) (mp_crb s ++ d ++ eol) true) = false) ->
+  exists s1, mp_process_aside s false = MpOk s1 /\
+    mps_pl s1 = mp_hd (mp_hd (mps_pl s) (mp_crb s ++ d ++ eol) true) (mp_matched (mps_boundary s) k) false /\
+    mps_fault s1 = mps_fault s.
+Proof.
+  intros HB R Hd0 Hd1.
+  set (X := mp_crb s ++ d ++ eol) in *. set (P1 := mp_hd (mps_pl s) X true) in *. set (M := mp_matched (mps_boundary s) k) in *.
+  pose proof HB as [Hb Hf Hwf _].
+  destruct (shape_X s d eol held (br_held _ _ _ _ _ _ _ _ _ _ R) (br_shape _ _ _ _ _ _ _ _ _ _ R)) as (HX & Hnil & Hcrne).
+  pose proof (br_first _ _ _ _ _ _ _ _ _ _ R) as HF0. pose proof (br_rest _ _ _ _ _ _ _ _ _ _ R) as HM0.
+  rewrite slc_nil, app_nil_r in HF0, HM0. fold M in HM0.
+  destruct (mps_bpieces s) as [|p1 rest] eqn:Ebp.
+  - (* nothing stored: the initial state *)
+    cbn [concat] in HF0, HM0. rewrite firstn_nil in HF0. rewrite skipn_nil in HM0.
+    symmetry in HF0. apply app_eq_nil in HF0. destruct HF0 as [-> ->].
+    assert (Hcr : mps_cr s = false).
+    { destruct (br_shape _ _ _ _ _ _ _ _ _ _ R) as [(H & _)|[(H & _)|[(H & _)|(_ & H & _)]]]; try exact H. discriminate H. }
+    assert (HXn : X = []) by (subst X; unfold mp_crb; rewrite Hcr; reflexivity).
+    subst P1. rewrite HXn, <- HM0. cbn [mp_hd].
+    destruct (mpl_mode (mps_pl s)) eqn:Em.
+    + rewrite (pa_false_line_nil s Em Ebp). eexists; split; [reflexivity|]. mp_fields. unfold mp_crb. rewrite Hcr. split; reflexivity.
+    + rewrite (pa_false_data s Em Hd0). eexists; split; [reflexivity|]. mp_fields. unfold mp_crb. rewrite Hcr, Ebp. split; reflexivity.
+  - destruct (br_cons _ _ _ _ _ _ _ _ _ _ R p1 rest Ebp) as (Hc1 & _ & _).
+    assert (HF : firstn (mps_cand s) p1 = d ++ eol).
+    { rewrite <- HF0. cbn [concat]. rewrite firstn_app_le by lia. reflexivity. }
+    assert (HM : skipn (mps_cand s) p1 ++ concat rest = M).
+    { rewrite <- HM0. cbn [concat]. rewrite skipn_app_le by lia. reflexivity. }
+    destruct (mpl_mode (mps_pl s)) eqn:Em.
+    + assert (Hd1' : mp_dupb (mp_hd (mps_pl s) (mp_crb s ++ firstn (mps_cand s) p1) true) = false \/ skipn (mps_cand s) p1 ++ concat rest = []).
+      { destruct (skipn (mps_cand s) p1 ++ concat rest) as [|y ys] eqn:EP2; [right; reflexivity|left].
+        rewrite HF. apply Hd1. rewrite <- HM. discriminate. }
+      rewrite (pa_false_line_cons s p1 rest Em Ebp Hc1 Hd0 ltac:(intros HH; rewrite HF; apply Hcrne; exact HH) Hd1').
+      eexists; split; [reflexivity|]. mp_fields. rewrite HF, HM. split; reflexivity.
+    + rewrite (pa_false_data s Em Hd0). eexists; split; [reflexivity|]. mp_fields. rewrite Ebp. split; [|reflexivity].
+      assert (Hcurs : mpl_cur (mps_pl s) <> None) by (intros HH; specialize (Hwf HH); congruence).
+      subst P1. rewrite (mp_hd_line_irrelevant (mps_pl s) X) by (left; tauto).
+      rewrite mp_hd_split_nl by exact Hd0. rewrite <- HM. subst X. cbn [concat]. rewrite <- (firstn_skipn (mps_cand s) p1) at 1.
+      rewrite HF. rewrite <- !app_assoc. reflexivity.
+Qed.
+
+Definition mp_fin_tail (pl1 : mp_pl) : mp_pl :=
+  match mpl_cur pl1 with
+  | None => pl1
+  | Some p =>
+    let pl2 := mp_finalize_data pl1 p in
+    match mpl_cur pl2 with
+    | Some q => (match mpp_type q with MpEpilogue => pl2 | _ => mp_pl_flag pl2 c_mp_INCOMPLETE end)
+    | None => pl2
+    end
+  end.
+
+Lemma pa_false_nil s : mps_bpieces s = [] ->
+  exists s1, mp_process_aside s false = MpOk s1 /\ mps_pl s1 = mp_hd (mps_pl s) (mp_crb s) false /\ mps_fault s1 = mps_fault s.
+Proof.
+  intros Hb. unfold mp_process_aside, mp_crb. cbn [orb negb andb]. cbv zeta.
+  destruct (mpl_mode (mps_pl s)); destruct (mps_cr s); mp_fields; rewrite ?Hb; cbn [fold_left]; eexists; (split; [reflexivity|]); mp_fields; split; reflexivity.
+Qed.
+
+Lemma finalize_r_tail s s1 :
+  mpl_cur (mps_pl s) <> None -> mp_process_aside s false = MpOk s1 -> mps_fault s1 = mps_fault s ->
+  exists s', mp_finalize_r s = MpOk s' /\ mps_pl s' = mp_fin_tail (mps_pl s1) /\ mps_fault s' = mps_fault s.
+Proof.
+  intros Hc Hpa Hf. unfold mp_finalize_r. destruct (mpl_cur (mps_pl s)); [|congruence]. rewrite Hpa.
+  unfold mp_fin_tail. destruct (mpl_cur (mps_pl s1)); eexists; (split; [reflexivity|]); mp_fields; split; try reflexivity; exact Hf.
+Qed.
+
+Lemma finalize_sim s A s' :
+  mp_R s A -> mp_tail_okb s = true -> snd (mp_afinal A) = true -> mp_finalize_r s = MpOk s' ->
+  mp_obs s' = mp_aobs (fst (mp_afinal A)).
+Proof.
+  intros [HB HR] Htail Hok Hrun.
+  assert (Hgoal : mps_pl s' = fst (mp_afinal A) /\ mps_fault s' = false).
+  { pose proof HB as [Hb Hf Hwf Hbok].
+    destruct HR as [crp reg H1 H2 H3 H4 H5 H6 H7|held k d eol H1 H2 H3 H4 H5 H6 H7 H8 H9 H10 H11 H12 H13 H14 H15|H1 H2 H3 H4 H5 H6].
+    - (* STATE_DATA *)
+      assert (Hreg : reg = [] /\ crp = mps_cr s).
+      { destruct H7 as [(Ha & Hb' & _ & Hd)|(Ha & Hb' & _ & _)]; [split; congruence|].
+        rewrite slc_nil in Hb'. symmetry in Hb'. apply app_eq_nil in Hb'. destruct Hb' as [-> Hc]. split; [reflexivity|].
+        destruct crp; [discriminate|congruence]. }
+      destruct Hreg as [-> ->]. cbn [mp_hd] in H4.
+      unfold mp_afinal in *. rewrite H4 in *. 
+      destruct (mpl_cur (mps_pl s)) as [p|] eqn:Ec.
+      + destruct (pa_false_nil s H2) as (s1 & Epa & Hpl1 & Hf1).
+        destruct (finalize_r_tail s s1 ltac:(congruence) Epa Hf1) as (s2 & E2 & Hpl2 & Hf2).
+        rewrite E2 in Hrun. injection Hrun as <-. rewrite Hpl2, Hf2. split; [|exact Hf].
+        rewrite H3. unfold mp_fin_tail. rewrite Hpl1. unfold mp_crb.
+        destruct (mps_cr s); cbn [mp_ahd fst snd]; rewrite ?mp_hd_nil; (match goal with |- match ?x with _ => _ end = _ => destruct x end); reflexivity.
+      + unfold mp_finalize_r in Hrun. rewrite Ec in Hrun. injection Hrun as <-. mp_fields. split; [reflexivity|exact Hf].
+    - (* STATE_BOUNDARY *)
+      assert (R : mp_bndrel [] s 0 0 0 A held k d eol) by (split; assumption).
+      pose proof (br_first _ _ _ _ _ _ _ _ _ _ R) as HF0. rewrite slc_nil, app_nil_r in HF0.
+      unfold mp_afinal in *.
+      destruct (mpl_cur (mps_pl s)) as [p|] eqn:Ec.
+      + assert (HcA : exists q, mpl_cur (ma_pl A) = Some q).
+        { rewrite H10. destruct d as [|d0 d']; [cbn; eauto|apply mp_hd_cur; discriminate]. }
+        destruct HcA as (q & HcA). rewrite HcA in *. rewrite H2 in *.
+        destruct (mp_arelease (ma_b A) (ma_pl A) (ma_ok A) held k) as [pl1 ok1] eqn:Erel.
+        assert (Hok1 : ok1 = true).
+        { destruct (mpl_cur pl1); cbn [snd] in Hok; exact Hok. }
+        pose proof (release_core s A [] 0 0 0 held k d eol HB R) as HC. rewrite Erel in HC. cbn [fst snd] in HC.
+        destruct (HC Hok1) as (Hpl1 & Hd0 & Hd1).
+        destruct (pa_false_T s A held k d eol HB R Hd0 Hd1) as (s1 & Epa & Hpls1 & Hf1).
+        destruct (finalize_r_tail s s1 ltac:(congruence) Epa Hf1) as (s2 & E2 & Hpl2 & Hf2).
+        rewrite E2 in Hrun. injection Hrun as <-. rewrite Hpl2, Hf2. split; [|exact Hf].
+        unfold mp_fin_tail. rewrite Hpls1, <- Hpl1. destruct (mpl_cur pl1); reflexivity.
+      + (* no part yet: K2 excluded, so nothing was handed over on the reference side either *)
+        assert (Hd : d = []).
+        { unfold mp_tail_okb in Htail. rewrite Ec in Htail. destruct (mps_bpieces s) as [|p1 rest] eqn:Ebp.
+          - cbn in HF0. rewrite firstn_nil in HF0. symmetry in HF0. apply app_eq_nil in HF0. tauto.
+          - destruct (H15 p1 rest eq_refl) as (Hc1 & _).
+            assert (HFp : firstn (mps_cand s) p1 = d ++ eol) by (rewrite <- HF0; cbn [concat]; rewrite firstn_app_le by lia; reflexivity).
+            rewrite HFp, (strip_eol_shape _ _ _ H9) in Htail. destruct d; [reflexivity|discriminate]. }
+        subst d. cbn [mp_hd] in H10. rewrite H10, Ec in *.
+        unfold mp_finalize_r in Hrun. rewrite Ec in Hrun. injection Hrun as <-. mp_fields. split; [reflexivity|exact Hf].
+    - (* after a delimiter *)
+      unfold mp_afinal in *. rewrite H4 in *.
+      destruct (mpl_cur (mps_pl s)) as [p|] eqn:Ec.
+      + destruct (pa_false_nil s H2) as (s1 & Epa & Hpl1 & Hf1).
+        destruct (finalize_r_tail s s1 ltac:(congruence) Epa Hf1) as (s2 & E2 & Hpl2 & Hf2).
+        rewrite E2 in Hrun. injection Hrun as <-. rewrite Hpl2, Hf2. split; [|exact Hf].
+        unfold mp_fin_tail. rewrite Hpl1. unfold mp_crb. rewrite H3. cbn [mp_hd].
+        destruct (mps_state s); destruct (ma_m A); try contradiction; cbn [fst]; destruct (mpl_cur (mps_pl s)); reflexivity.
+      + unfold mp_finalize_r in Hrun. rewrite Ec in Hrun. injection Hrun as <-. mp_fields. split; [reflexivity|exact Hf]. }
+  destruct Hgoal as [Hp Hf]. unfold mp_obs, mp_aobs, mp_parts, mp_aparts. rewrite Hp, Hf. reflexivity.
+Qed.
+
+(* ------------------------------------------------------------------ whole runs *)
+Lemma init_R b f : mp_bnd_okb b = true -> mp_R (mp_init_flags b f) (mp_ainit b f).
+Proof.
+  intros Hb. split.
+  - split; cbn; try reflexivity.
+    + intros _. reflexivity.
+    + exists b. split; [reflexivity|exact Hb].
+  - apply RmBnd with (held := []) (k := 2) (d := []) (eol := []); cbn; try reflexivity; try lia;
+      try (left; tauto); try (intros _; unfold mp_dupb; cbn; apply andb_false_r); try (intros p1 r HH; discriminate HH).
+Qed.
+
+Lemma afinal_ok a : snd (mp_afinal a) = true -> ma_ok a = true.
+Proof.
+  unfold mp_afinal. destruct (mpl_cur (ma_pl a)); [|exact (fun H => H)].
+  destruct (ma_m a) as [[|]|held k| | | |].
+  - destruct (mp_ahd (ma_pl a) (ma_ok a) [CR] false) as [pl1 ok1] eqn:E. intros H.
+    assert (ok1 = true) by (destruct (mpl_cur pl1); exact H). subst ok1.
+    pose proof (ahd_ok (ma_pl a) (ma_ok a) [CR] false) as H2. rewrite E in H2. apply H2. reflexivity.
+  - intros H. destruct (mpl_cur (ma_pl a)); exact H.
+  - destruct (mp_arelease (ma_b a) (ma_pl a) (ma_ok a) held k) as [pl1 ok1] eqn:E. intros H.
+    assert (ok1 = true) by (destruct (mpl_cur pl1); exact H). subst ok1.
+    pose proof (arelease_ok (ma_b a) (ma_pl a) (ma_ok a) held k) as H2. rewrite E in H2. apply H2. reflexivity.
+  - intros H. destruct (mpl_cur (ma_pl a)); exact H.
+  - intros H. destruct (mpl_cur (ma_pl a)); exact H.
+  - intros H. destruct (mpl_cur (ma_pl a)); exact H.
+  - intros H. destruct (mpl_cur (ma_pl a)); exact H.
+Qed.
+
+Lemma fold_sim chunks : forall s A,
+  mp_inv' s -> mp_R s A -> mp_no_cr_hazard_from s chunks = true ->
+  ma_ok (fold_left mp_astep (concat chunks) A) = true ->
+  mp_inv' (fold_left mp_parse chunks s) /\ mp_R (fold_left mp_parse chunks s) (fold_left mp_astep (concat chunks) A).
+Proof.
+  induction chunks as [|c r IH]; intros s A Hi HR Hhz Hok; cbn [fold_left concat] in *; [tauto|].
+  rewrite fold_left_app in Hok |- *.
+  apply andb_true_iff in Hhz. destruct Hhz as [Hh1 Hh2]. apply negb_true_iff in Hh1.
+  pose proof Hi as [Hinv Hni]. pose proof Hinv as (Hf & _).
+  destruct (parse_r_ok s c Hinv Hni) as (s1 & E1 & _).
+  assert (Hp : mp_parse s c = s1) by (unfold mp_parse; rewrite Hf, E1; reflexivity).
+  rewrite Hp in *.
+  apply IH; try assumption.
+  - rewrite <- Hp. apply parse_inv'. exact Hi.
+  - apply (parse_sim s A c s1 HR Hh1); [|exact E1]. eapply afold_ok. exact Hok.
+Qed.
+
+Theorem mp_chunking_reference : forall b f chunks,
+  mp_bnd_okb b = true -> mp_body_okb b f (concat chunks) = true -> mp_no_cr_hazardb b f chunks = true ->
+  mp_tail_okb (fold_left mp_parse chunks (mp_init_flags b f)) = true ->
+  mp_obs (mp_finalize (fold_left mp_parse chunks (mp_init_flags b f))) = mp_aobs (fst (mp_aref b f (concat chunks))).
+Proof.
+  intros b f chunks Hb Hbody Hcr Htail.
+  unfold mp_body_okb, mp_aref in *.
+  set (A := fold_left mp_astep (concat chunks) (mp_ainit b f)) in *.
+  assert (HokA : ma_ok A = true) by (apply afinal_ok; exact Hbody).
+  destruct (fold_sim chunks (mp_init_flags b f) (mp_ainit b f) (init_inv' b f) (init_R b f Hb) Hcr HokA) as [Hi HR].
+  fold A in HR. set (st := fold_left mp_parse chunks (mp_init_flags b f)) in *.
+  destruct Hi as [Hinv _]. pose proof Hinv as (Hf & _).
+  destruct (finalize_r_ok st Hinv) as (s' & E & _).
+  unfold mp_finalize. rewrite Hf, E.
+  apply (finalize_sim st A s' HR Htail Hbody E).
+Qed.
+
+(* C14 (b): chunked delivery and whole delivery are observed identically, under the premises *)
+Theorem mp_byte_refinement_partial : forall b f chunks,
+  mp_premb b f chunks = true ->
+  mp_obs (mp_finalize (fold_left mp_parse chunks (mp_init_flags b f))) =
+  mp_obs (mp_finalize (mp_parse (mp_init_flags b f) (concat chunks))).
+Proof.
+  intros b f chunks H. unfold mp_premb in H.
+  repeat (apply andb_true_iff in H; destruct H as [H ?]).
+  rewrite (mp_chunking_reference b f chunks) by assumption.
+  pose proof (mp_chunking_reference b f [concat chunks]) as HW. cbn [concat fold_left] in HW. rewrite app_nil_r in HW.
+  rewrite HW; try assumption; [reflexivity|].
+  unfold mp_no_cr_hazardb, mp_no_cr_hazard_from, mp_cr_hazard_at. reflexivity.
 Qed.
